@@ -1,4 +1,4 @@
-import HidVerif.Proofs.CoreStmt
+import HidVerif.Proofs.CoreFrame
 /-!
 # Core compiler proofs: statement lists (`cS_ok`) by induction on the fuel of `exec`
 
@@ -13,59 +13,69 @@ namespace HidVerif.Core
 open HidVerif HidVerif.PSys HidVerif.Sphinx HidVerif.Gen
 
 section
-variable {p : Prog} {ck : Bool} {B : Nat}
+variable {p : Prog} {ck : Bool} {B : Nat} {fa : FAddr} {fns : List FDecl}
+
+/-- what the proofs need to know about the functions of the program -/
+structure FnsOK (p : Prog) (ck : Bool) (B : Nat) (fa : FAddr) (fns : List FDecl) : Prop where
+  placed : ∀ fd ∈ fns, PlacedAt p (faddr fa fd.name) (funcCode (cxOf p ck B) fa (faddr fa fd.name) fd.params fd.body)
+  inB : ∀ fd ∈ fns, faddr fa fd.name + (funcCode (cxOf p ck B) fa (faddr fa fd.name) fd.params fd.body).length ≤ B
+  nodup : ∀ fd ∈ fns, fd.params.Nodup
+  wf : ∀ fd ∈ fns, wfS fd.params fd.body = true
+  plain : ∀ fd ∈ fns, Core.plain fd.body = true
 
 /-- what a caller must know about the end of a statement list that contains `try` -/
-def Safe (p : Prog) (B ra : Nat) (Γ : Gam) (env' : Env) (F D o pcEnd : Nat) (res : Res) (s : S) : Prop :=
+def Safe (p : Prog) (B ra : Nat) (Γ : Gam) (env' : Env) (F D o pcEnd : Nat) (m : Mem) (res : Res) (s : S) : Prop :=
   noTry s = true ∨
-    (youLevel s = true ∧ ∀ st', Post p B ra Γ env' F D o pcEnd res st' → ¬ Halts (sphinx p) st')
+    (youLevel s = true ∧ ∀ st', Post p B ra Γ env' F D o pcEnd m res st' → ¬ Halts (sphinx p) st')
 
-theorem Safe.sub {Γ Γ' : Gam} {env' : Env} {F D ra o o' e e' : Nat} {res : Res} {s k : S}
-    (h : Safe p B ra Γ env' F D o e res s)
+theorem Safe.sub {Γ Γ' : Gam} {env' : Env} {F D ra o o' e e' : Nat} {m m1 : Mem} {res : Res} {s k : S}
+    (h : Safe p B ra Γ env' F D o e m res s)
     (hnt : noTry s = true → noTry k = true) (hyl : youLevel s = true → youLevel k = true)
-    (conv : ∀ st', Post p B ra Γ' env' F D o' e' res st' → Post p B ra Γ env' F D o e res st') :
-    Safe p B ra Γ' env' F D o' e' res k := by
+    (km : Keep p.w m m1 F)
+    (conv : ∀ st', Post p B ra Γ' env' F D o' e' m res st' → Post p B ra Γ env' F D o e m res st') :
+    Safe p B ra Γ' env' F D o' e' m1 res k := by
   rcases h with h | ⟨h1, h2⟩
   · exact Or.inl (hnt h)
-  · exact Or.inr ⟨hyl h1, fun st' hp => h2 st' (conv st' hp)⟩
+  · exact Or.inr ⟨hyl h1, fun st' hp => h2 st' (conv st' (hp.rebase km))⟩
 
 /-- what `cS_ok` concludes -/
 def Concl (p : Prog) (B ra : Nat) (Γ : Gam) (env' : Env) (F D o pc pcEnd : Nat) (m : Mem) (tr : List Ev) (res : Res) : Prop :=
   (res = .defeat → Halts (sphinx p) ⟨pc, m⟩) ∧
-  (res ≠ .defeat → ∃ st', Reach (sphinx p) ⟨pc, m⟩ tr st' ∧ Post p B ra Γ env' F D o pcEnd res st')
+  (res ≠ .defeat → ∃ st', Reach (sphinx p) ⟨pc, m⟩ tr st' ∧ Post p B ra Γ env' F D o pcEnd m res st')
 
 /-- prefix a `Reach` to a conclusion about the rest -/
 theorem Concl.pre {Γ Γ' : Gam} {env' : Env} {F D ra o o' pc pc1 e e' : Nat} {m m1 : Mem} {tr0 tr : List Ev} {res : Res}
-    (r : Reach (sphinx p) ⟨pc, m⟩ tr0 ⟨pc1, m1⟩)
+    (r : Reach (sphinx p) ⟨pc, m⟩ tr0 ⟨pc1, m1⟩) (km : Keep p.w m m1 F)
     (h : Concl p B ra Γ' env' F D o' pc1 e' m1 tr res)
-    (conv : ∀ st', Post p B ra Γ' env' F D o' e' res st' → Post p B ra Γ env' F D o e res st') :
+    (conv : ∀ st', Post p B ra Γ' env' F D o' e' m res st' → Post p B ra Γ env' F D o e m res st') :
     Concl p B ra Γ env' F D o pc e m (tr0 ++ tr) res :=
   ⟨fun hd => r.1 (h.1 hd), fun hn => by
     obtain ⟨st', r2, hp⟩ := h.2 hn
-    exact ⟨st', r.trans r2, conv st' hp⟩⟩
+    exact ⟨st', r.trans r2, conv st' (hp.rebase km)⟩⟩
 
-theorem post_conv {Γ : Gam} {env' : Env} {F D ra o e e' : Nat} {res : Res} (he : e' = e) :
-    ∀ st', Post p B ra Γ env' F D o e' res st' → Post p B ra Γ env' F D o e res st' := by
+theorem post_conv {Γ : Gam} {env' : Env} {F D ra o e e' : Nat} {m : Mem} {res : Res} (he : e' = e) :
+    ∀ st', Post p B ra Γ env' F D o e' m res st' → Post p B ra Γ env' F D o e m res st' := by
   subst he; exact fun _ h => h
 
-theorem cS_ok (lib : Placed p B) (F D ra : Nat) (hra : ra < 256 ^ p.w) :
-    ∀ (fuel : Nat) (s : S) (Γ : Gam) (env : Env) (pc o : Nat) (m : Mem) (env' : Env) (tr : List Ev) (res : Res),
-      PlacedAt p pc (cS (cxOf p ck B) Γ pc o s) →
-      pc + (cS (cxOf p ck B) Γ pc o s).length ≤ B →
+theorem cS_ok (lib : Placed p B) (fok : FnsOK p ck B fa fns) :
+    ∀ (fuel : Nat) (F D ra : Nat) (hra : ra < 256 ^ p.w)
+      (s : S) (Γ : Gam) (env : Env) (pc o : Nat) (m : Mem) (env' : Env) (tr : List Ev) (res : Res),
+      PlacedAt p pc (cS (cxOf p ck B) fa Γ pc o s) →
+      pc + (cS (cxOf p ck B) fa Γ pc o s).length ≤ B →
       SInv p Γ env m F D o ra → Disj p.w Γ → wfS (Γ.map Prod.fst) s = true →
       pkS p.w o s ≤ D → p.w ≤ o →
-      exec (256 ^ p.w) (8 * p.w) fuel env s = some (env', tr, res) → (res = .div0 → ck = true) →
-      Safe p B ra Γ env' F D o (pc + (cS (cxOf p ck B) Γ pc o s).length) res s →
-      Concl p B ra Γ env' F D o pc (pc + (cS (cxOf p ck B) Γ pc o s).length) m tr res := by
+      exec (256 ^ p.w) (8 * p.w) fns p.w fuel D o env s = some (env', tr, res) → (res = .div0 → ck = true) →
+      Safe p B ra Γ env' F D o (pc + (cS (cxOf p ck B) fa Γ pc o s).length) m res s →
+      Concl p B ra Γ env' F D o pc (pc + (cS (cxOf p ck B) fa Γ pc o s).length) m tr res := by
   have hw := lib.hw
   have h64 := mul_w_lt_pow p.w hw
   have hM := pow_ge2 p.w hw
   have hBM := lib.hB
   intro fuel
   induction fuel with
-  | zero => intro s Γ env pc o m env' tr res _ _ _ _ _ _ _ hex; simp [exec] at hex
+  | zero => intro F D ra hra s Γ env pc o m env' tr res _ _ _ _ _ _ _ hex; simp [exec] at hex
   | succ f ih =>
-    intro s Γ env pc o m env' tr res hpl hB hinv hd hwf hpk ho hex hck hs
+    intro F D ra hra s Γ env pc o m env' tr res hpl hB hinv hd hwf hpk ho hex hck hs
     have hroom := hinv.fr.room; have htop := hinv.fr.top; have hFM := hinv.fr.lt
     have hoD : o ≤ D := by have := pkS_ge p.w s o; omega
     -- a fault exit: the machine is in the `division_by_zero` stub
@@ -73,11 +83,226 @@ theorem cS_ok (lib : Placed p B) (F D ra : Nat) (hra : ra < 256 ^ p.w) :
         Reach (sphinx p) ⟨pc0, m0⟩ t ⟨B + off_division_by_zero, m'⟩ →
         Concl p B ra Γ env0 F D o pc0 e0 m0 t .div0 :=
       fun _ _ _ _ m' _ r => ⟨fun h => absurd h (by decide), fun _ => ⟨⟨_, m'⟩, r, by simp [Post]⟩⟩
+    -- a call `g(args)` at the start of the list: the callee's body by the induction hypothesis
+    have hcall : ∀ (g : String) (args : List E) (trc : List Ev) (flag : Bool) (rv : Option Nat),
+        PlacedAt p pc (cCall (cxOf p ck B) fa Γ pc o g args) →
+        pc + (cCall (cxOf p ck B) fa Γ pc o g args).length ≤ B →
+        args.all (boundE (Γ.map Prod.fst)) = true → pkCall p.w o args ≤ D →
+        callWith (256 ^ p.w) (8 * p.w) fns p.w (exec (256 ^ p.w) (8 * p.w) fns p.w f) D o env g args
+          = some (trc, flag, rv) →
+        (flag = true → ck = true) →
+        (flag = true → ∃ m', Reach (sphinx p) ⟨pc, m⟩ trc ⟨B + off_division_by_zero, m'⟩) ∧
+        (flag = false → ∃ m', Reach (sphinx p) ⟨pc, m⟩ trc
+            ⟨pc + (cCall (cxOf p ck B) fa Γ pc o g args).length, m'⟩ ∧ Keep p.w m m' (F - o) ∧
+          ∀ v, rv = some v → m'.readLE (F - (o + p.w)) p.w = v) := by
+      intro g args trc flag rv hplc hBc hba hpkc hcw hfl
+      have fr := hinv.fr
+      have hpkA : pkArgs p.w (o + p.w) args ≤ D := by unfold pkCall at hpkc; omega
+      have hoW : o + p.w ≤ D := by unfold pkCall at hpkc; omega
+      generalize hpush : cArgs (cxOf p ck B) Γ (pc + 1) (o + p.w) args = push at *
+      have hcode : cCall (cxOf p ck B) fa Γ pc o g args =
+          [stSlot (cxOf p ck B) (o + p.w) (.imm (pc + 1 + push.length + 3))] ++ push ++
+            [.alu .add p.w (.st p.w) ((cxOf p ck B).negImm o), .j (.imm (faddr fa g)), .halt,
+             .alu .add p.w (.st p.w) (.imm (wrapI (256 ^ p.w) o))] := by
+        simp only [cCall, hpush]; rfl
+      rw [hcode] at hplc hBc ⊢
+      have hlen : ([stSlot (cxOf p ck B) (o + p.w) (.imm (pc + 1 + push.length + 3))] ++ push ++
+            [Instr.alu .add p.w (.st p.w) ((cxOf p ck B).negImm o), .j (.imm (faddr fa g)), .halt,
+             .alu .add p.w (.st p.w) (.imm (wrapI (256 ^ p.w) o))]).length = 1 + push.length + 4 := by
+        simp only [List.length_append, List.length_cons, List.length_nil]
+      rw [hlen] at hBc ⊢
+      obtain ⟨hpl12, hpl3⟩ := hplc.append
+      obtain ⟨hpl1, hpl2⟩ := hpl12.append
+      simp only [List.length_append, List.length_cons, List.length_nil, Nat.zero_add] at hpl2 hpl3
+      -- 0: the return address
+      have hend : pc + 1 + push.length + 3 < 256 ^ p.w := by simp [stdlibLength] at hBM; omega
+      have s0 := st_reach (ck := ck) (B := B) hw fr (o + p.w) (.imm (pc + 1 + push.length + 3)) (pc + 1 + push.length + 3) hpl1
+        (by rw [ev_imm]; congr 1; exact Nat.mod_eq_of_lt (by unfold Prog.M; exact hend)) (by omega) (by omega)
+      have k0 : Keep p.w m (m.writeLE (F - (o + p.w)) p.w (pc + 1 + push.length + 3)) (F - o) :=
+        Keep.write _ _ _ _ _ _ (by omega) (by omega)
+      generalize hm1 : m.writeLE (F - (o + p.w)) p.w (pc + 1 + push.length + 3) = m1 at *
+      have fr1 := fr.keep k0
+      have hra1 : m1.readLE (F - (o + p.w)) p.w = pc + 1 + push.length + 3 := by
+        rw [← hm1, Mem.readLE_writeLE_same _ _ _ _ (by omega)]; exact Nat.mod_eq_of_lt hend
+      -- the arguments
+      have hp := cArgs_ok (ck := ck) lib Γ env F D args (pc + 1) (o + p.w) m1 (by rw [hpush]; exact hpl2)
+        (by rw [hpush]; omega) fr1 (hinv.vars.keep k0 (Nat.le_refl _) (by omega)) hba hpkA (by omega)
+      rw [hpush] at hp
+      unfold callWith at hcw
+      cases hev : evalArgs (256 ^ p.w) (8 * p.w) env args with
+      | none =>
+        simp only [hev, Option.some.injEq, Prod.mk.injEq] at hcw
+        obtain ⟨rfl, rfl, rfl⟩ := hcw
+        obtain ⟨m', rd⟩ := hp.2 hev (hfl rfl)
+        exact ⟨fun _ => ⟨m', by simpa [evl] using s0.trans rd⟩, fun h => absurd h (by simp)⟩
+      | some vs =>
+        simp only [hev] at hcw
+        cases hfind : fns.find? (fun fd => fd.name == g) with
+        | none => simp [hfind] at hcw
+        | some fd =>
+          simp only [hfind] at hcw
+          have hmem : fd ∈ fns := List.mem_of_find?_eq_some hfind
+          have hname : fd.name = g := by simpa using List.find?_some hfind
+          subst hname
+          by_cases hcond : vs.length ≠ fd.params.length ∨ D < o ∨ D - o < pkS p.w (entryOff p.w fd.params) fd.body
+          · simp [hcond] at hcw
+          · rw [if_neg hcond] at hcw
+            have hvl : vs.length = fd.params.length := by omega
+            have hfit : pkS p.w (entryOff p.w fd.params) fd.body ≤ D - o := by omega
+            obtain ⟨m2, r2, k2, hsl2⟩ := hp.1 vs hev
+            have fr2 := fr1.keep k2
+            have hra2 : m2.readLE (F - (o + p.w)) p.w = pc + 1 + push.length + 3 := by
+              rw [k2.read _ _ (Nat.le_refl _)]; exact hra1
+            have c0 := hpl3 0 (by simp); have c1 := hpl3 1 (by simp); have c2 := hpl3 2 (by simp); have c3 := hpl3 3 (by simp)
+            simp only [List.getElem_cons_succ, List.getElem_cons_zero, Nat.add_zero] at c0 c1 c2 c3
+            -- fp := fp - o
+            have efp : evalArg p ⟨pc + (1 + push.length), m2⟩ (.st p.w) = some F := by
+              rw [ev_st (by unfold Prog.M; omega) (by have := fr2.top; omega), fr2.fp]
+            have e1 : (F + (256 ^ p.w - o) % p.M) % p.M = F - o := by
+              unfold Prog.M; exact add_neg_mod (by omega) (by omega) hFM
+            have s3 := step_alu (m := m2) c0 efp (ev_negImm ck B o (by omega) (by omega)) alu_add
+              (by unfold Prog.M; omega) (by have := fr2.top; omega)
+            rw [e1] at s3
+            generalize hm3 : m2.writeLE p.w p.w (F - o) = m3 at *
+            have hsz3 : m3.size = m2.size := by rw [← hm3]; simp
+            have hfp3 : m3.readLE p.w p.w = F - o := by
+              rw [← hm3, Mem.readLE_writeLE_same _ _ _ _ (by have := fr2.top; omega)]; exact Nat.mod_eq_of_lt (by omega)
+            have hrd3 : ∀ x, 2 * p.w ≤ x → m3.rd x = m2.rd x := fun x hx => by
+              rw [← hm3]; exact Mem.rd_writeLE_other _ _ _ _ _ (by omega)
+            have hap3 : m3.readLE 0 p.w = 5 * p.w := by
+              rw [← hm3, Mem.readLE_writeLE_disj _ _ _ _ _ _ (by omega)]; exact fr2.ap
+            -- the jump into the callee
+            have hplf := fok.placed fd hmem
+            have hBf := fok.inB fd hmem
+            have hfaM : faddr fa fd.name < 256 ^ p.w := by simp [stdlibLength] at hBM; omega
+            have s4 := step_j (m := m3) c1 (ev_imm (faddr fa fd.name))
+            rw [show faddr fa fd.name % p.M = faddr fa fd.name from Nat.mod_eq_of_lt (by unfold Prog.M; exact hfaM)] at s4
+            have s5 := step_halt (m := m3) c2
+            have jcall := Reach.jump_taken (sys := sphinx p) s4 s5
+            -- the callee's frame
+            have fr3 : Fr p m3 (F - o) (D - o) :=
+              ⟨hfp3, hap3, by rw [hsz3]; have := fr2.top; omega, by omega, by omega⟩
+            have hpro := (prologue_ok (ck := ck) lib fa (faddr fa fd.name) fd.params fd.body m3 (F - o) (D - o) fr3
+              hplf hBf (by omega)).1 (by omega)
+            have hsl3 : SlotsAt p.w m3 (F - o) (2 * p.w) vs := by
+              apply SlotsAt_shift
+              refine SlotsAt_congr p.w m2 m3 F (2 * p.w) hrd3 vs (o + 2 * p.w) ?_ (by rw [show o + 2 * p.w = o + p.w + p.w by omega]; exact hsl2)
+              have := evalArgs_length hev
+              have hpa : o + p.w + args.length * p.w ≤ pkArgs p.w (o + p.w) args := pkArgs_ge p.w args (o + p.w)
+              rw [← this] at hpa
+              omega
+            have heo : 2 * p.w + fd.params.length * p.w - p.w = entryOff p.w fd.params := by
+              unfold entryOff; rw [Nat.add_mul, Nat.one_mul]; omega
+            have hvars3 := vars_slots p.w m3 (F - o) fd.params vs (2 * p.w) (fok.nodup fd hmem) hvl (Nat.le_refl _) hsl3
+            rw [heo] at hvars3
+            have hra3 : m3.readLE (F - o - p.w) p.w = pc + 1 + push.length + 3 := by
+              rw [show F - o - p.w = F - (o + p.w) by omega, ← hra2]
+              exact Mem.readLE_congr _ _ _ _ (fun x h1 _ => hrd3 x (by omega))
+            have hinv3 : SInv p (paramGam p.w (2 * p.w) fd.params) (bindEnv fd.params vs) m3 (F - o) (D - o)
+                (entryOff p.w fd.params) (pc + 1 + push.length + 3) := ⟨fr3, hvars3, hra3⟩
+            have heW : p.w ≤ entryOff p.w fd.params := by unfold entryOff; rw [Nat.add_mul, Nat.one_mul]; omega
+            -- the body
+            have hsplit : funcCode (cxOf p ck B) fa (faddr fa fd.name) fd.params fd.body =
+                (if ck then
+                  [Instr.j (.imm (faddr fa fd.name + 5)), .alu .sub (cxOf p ck B).r1 (.st (cxOf p ck B).fp) (.st 0),
+                   .hcond .hgeu (.st (cxOf p ck B).r1) (.imm (pkS p.w (entryOff p.w fd.params) fd.body % (cxOf p ck B).M)),
+                   .j (.imm (B + off_stack_overflow)), .halt]
+                 else []) ++ cS (cxOf p ck B) fa (paramGam p.w (2 * p.w) fd.params) (faddr fa fd.name + prologueLen ck)
+                    (entryOff p.w fd.params) fd.body := rfl
+            have hpllen : (if ck then
+                  [Instr.j (.imm (faddr fa fd.name + 5)), .alu .sub (cxOf p ck B).r1 (.st (cxOf p ck B).fp) (.st 0),
+                   .hcond .hgeu (.st (cxOf p ck B).r1) (.imm (pkS p.w (entryOff p.w fd.params) fd.body % (cxOf p ck B).M)),
+                   .j (.imm (B + off_stack_overflow)), .halt]
+                 else []).length = prologueLen ck := by cases ck <;> rfl
+            rw [hsplit] at hplf hBf
+            obtain ⟨_, hplb⟩ := hplf.append
+            rw [hpllen] at hplb
+            rw [List.length_append, hpllen] at hBf
+            cases hexb : exec (256 ^ p.w) (8 * p.w) fns p.w f (D - o) (entryOff p.w fd.params) (bindEnv fd.params vs) fd.body with
+            | none => simp [hexb] at hcw
+            | some rb =>
+              obtain ⟨envb, trb, resb⟩ := rb
+              simp only [hexb] at hcw
+              have hbody := ih (F - o) (D - o) (pc + 1 + push.length + 3) hend fd.body (paramGam p.w (2 * p.w) fd.params)
+                (bindEnv fd.params vs) (faddr fa fd.name + prologueLen ck) (entryOff p.w fd.params) m3 envb trb resb
+                hplb (by omega) hinv3 (disj_paramGam p.w fd.params (2 * p.w) (fok.nodup fd hmem))
+                (by rw [map_fst_paramGam]; exact fok.wf fd hmem) hfit heW hexb
+                (by intro hr; subst hr; simp only [Option.some.injEq, Prod.mk.injEq] at hcw; exact hfl hcw.2.1.symm)
+                (Or.inl (plain_noTry _ (fok.plain fd hmem)))
+              have r03 : Reach (sphinx p) ⟨pc, m⟩ [] ⟨faddr fa fd.name + prologueLen ck, m3⟩ := by
+                have r3 := Reach.of_next (sys := sphinx p) s3
+                have r2' : Reach (sphinx p) ⟨pc + 1, m1⟩ [] ⟨pc + (1 + push.length), m2⟩ := by simpa [Nat.add_assoc] using r2
+                have := s0.trans (r2'.trans (r3.trans (jcall.trans hpro)))
+                simpa [evl] using this
+              -- after the return: fp := fp + o
+              have back : ∀ m4, Keep p.w m3 m4 (F - o) →
+                  Reach (sphinx p) ⟨pc + 1 + push.length + 3, m4⟩ [] ⟨pc + (1 + push.length + 4), m4.writeLE p.w p.w F⟩ ∧
+                  Keep p.w m (m4.writeLE p.w p.w F) (F - o) ∧
+                  (m4.writeLE p.w p.w F).readLE (F - (o + p.w)) p.w = m4.readLE (F - o - p.w) p.w := by
+                intro m4 k34
+                have hsz4 : m4.size = m3.size := k34.size
+                have hfp4 : m4.readLE p.w p.w = F - o := by rw [k34.fp]; exact hfp3
+                have e : pc + 1 + push.length + 3 = pc + (1 + push.length) + 1 + 1 + 1 := by omega
+                have efp4 : evalArg p ⟨pc + (1 + push.length) + 1 + 1 + 1, m4⟩ (.st p.w) = some (F - o) := by
+                  rw [ev_st (by unfold Prog.M; omega) (by rw [hsz4, hsz3]; have := fr2.top; omega), hfp4]
+                have eo : evalArg p ⟨pc + (1 + push.length) + 1 + 1 + 1, m4⟩ (.imm (wrapI (256 ^ p.w) o)) = some o := by
+                  rw [ev_imm, wrapI_nat (by omega)]; congr 1; exact Nat.mod_eq_of_lt (by unfold Prog.M; omega)
+                have s6 := step_alu (m := m4) c3 efp4 eo alu_add (by unfold Prog.M; omega) (by rw [hsz4, hsz3]; have := fr2.top; omega)
+                rw [show (F - o + o) % p.M = F from by unfold Prog.M; rw [Nat.sub_add_cancel (by omega)]; exact Nat.mod_eq_of_lt hFM] at s6
+                refine ⟨?_, ?_, ?_⟩
+                · rw [e]
+                  have r6 := Reach.of_next (sys := sphinx p) s6
+                  simpa [evl, Nat.add_assoc] using r6
+                · have k25 : Keep p.w m2 (m4.writeLE p.w p.w F) (F - o) := by
+                    refine ⟨by simp [hsz4, hsz3], ?_, ?_, fun x hx => ?_⟩
+                    · rw [Mem.readLE_writeLE_same _ _ _ _ (by rw [hsz4, hsz3]; have := fr2.top; omega), fr2.fp]
+                      exact Nat.mod_eq_of_lt hFM
+                    · rw [Mem.readLE_writeLE_disj _ _ _ _ _ _ (by omega), k34.ap, hap3, fr2.ap]
+                    · rw [Mem.rd_writeLE_other _ _ _ _ _ (by omega), k34.hi x hx, hrd3 x (by omega)]
+                  exact (k0.trans' (k2.mono (by omega))).trans' k25
+                · rw [Mem.readLE_writeLE_disj _ _ _ _ _ _ (by omega)]
+                  congr 1; omega
+              cases resb with
+              | norm => simp at hcw
+              | defeat => simp at hcw
+              | div0 =>
+                simp only [Option.some.injEq, Prod.mk.injEq] at hcw
+                obtain ⟨rfl, rfl, rfl⟩ := hcw
+                obtain ⟨st', rb, hpost⟩ := hbody.2 (by simp)
+                obtain ⟨pc', m'⟩ := st'
+                simp only [Post] at hpost
+                subst hpost
+                exact ⟨fun _ => ⟨m', by simpa using r03.trans rb⟩, fun h => absurd h (by simp)⟩
+              | returned =>
+                simp only [Option.some.injEq, Prod.mk.injEq] at hcw
+                obtain ⟨rfl, rfl, rfl⟩ := hcw
+                obtain ⟨st', rb, hpost⟩ := hbody.2 (by simp)
+                obtain ⟨pc', m4⟩ := st'
+                simp only [Post] at hpost
+                obtain ⟨hpc', k34⟩ := hpost
+                subst hpc'
+                obtain ⟨r6, k6, _⟩ := back m4 k34
+                refine ⟨fun h => absurd h (by simp), fun _ => ⟨_, ?_, k6, fun v hv => absurd hv (by simp)⟩⟩
+                simpa using (r03.trans rb).trans r6
+              | retv v =>
+                simp only [Option.some.injEq, Prod.mk.injEq] at hcw
+                obtain ⟨rfl, rfl, rfl⟩ := hcw
+                obtain ⟨st', rb, hpost⟩ := hbody.2 (by simp)
+                obtain ⟨pc', m4⟩ := st'
+                simp only [Post] at hpost
+                obtain ⟨hpc', k34, hv4⟩ := hpost
+                subst hpc'
+                obtain ⟨r6, k6, h6⟩ := back m4 k34
+                refine ⟨fun h => absurd h (by simp), fun _ => ⟨_, ?_, k6, fun v' hv' => ?_⟩⟩
+                · simpa using (r03.trans rb).trans r6
+                · simp only [Option.some.injEq] at hv'
+                  subst hv'
+                  rw [h6]; exact hv4
     cases s with
     | nil =>
       simp only [exec, Option.some.injEq, Prod.mk.injEq] at hex
       obtain ⟨rfl, rfl, rfl⟩ := hex
-      exact ⟨fun h => absurd h (by decide), fun _ => ⟨⟨pc, m⟩, by simpa using Reach.refl, by simp [Post, cS]; exact hinv⟩⟩
+      exact ⟨fun h => absurd h (by decide), fun _ => ⟨⟨pc, m⟩, by simpa using Reach.refl, by simp [Post, cS]; exact ⟨hinv, Keep.refl _ _ _⟩⟩⟩
     | ret =>
       simp only [exec, Option.some.injEq, Prod.mk.injEq] at hex
       obtain ⟨rfl, rfl, rfl⟩ := hex
@@ -92,7 +317,8 @@ theorem cS_ok (lib : Placed p B) (F D ra : Nat) (hra : ra < 256 ^ p.w) :
         (by rw [ev_st (by unfold Prog.M; omega) (by omega), Mem.readLE_writeLE_same _ _ _ _ (by omega)])
       rw [Nat.mod_eq_of_lt hra] at s1
       have s2 := step_halt (m := m.writeLE (3 * p.w) p.w ra) c2
-      refine ⟨fun h => absurd h (by decide), fun _ => ⟨⟨ra, m.writeLE (3 * p.w) p.w ra⟩, ?_, by simp [Post]⟩⟩
+      refine ⟨fun h => absurd h (by decide), fun _ => ⟨⟨ra, m.writeLE (3 * p.w) p.w ra⟩, ?_,
+        by simp [Post]; exact Keep.write _ _ _ _ _ _ (by omega) (by omega)⟩⟩
       have := (Reach.of_next (sys := sphinx p) s0).trans (Reach.jump_taken (sys := sphinx p) s1 s2)
       simpa [evl] using this
     | decl x e k =>
@@ -113,21 +339,22 @@ theorem cS_ok (lib : Placed p B) (F D ra : Nat) (hra : ra < 256 ^ p.w) :
         simp only [exec, hev] at hex
         obtain ⟨m1, r1, k1, hval⟩ := hp.1 v hev
         obtain ⟨hinv1, hd1⟩ := decl_inv hinv hd x v k1 hval hxn ho
-        have conv : ∀ (e1 e2 : Nat), e1 = e2 → ∀ st', Post p B ra ((x, o + p.w) :: Γ) env' F D (o + p.w) e1 res st' →
-            Post p B ra Γ env' F D o e2 res st' := by
+        have conv : ∀ (e1 e2 : Nat), e1 = e2 → ∀ st', Post p B ra ((x, o + p.w) :: Γ) env' F D (o + p.w) e1 m res st' →
+            Post p B ra Γ env' F D o e2 m res st' := by
           intro e1 e2 he st' hpost
           subst he
           cases res with
           | norm =>
             simp only [Post] at hpost ⊢
-            exact ⟨hpost.1, decl_back hinv x hpost.2 hxn⟩
+            exact ⟨hpost.1, decl_back hinv x hpost.2.1 hxn, hpost.2.2⟩
           | returned => simpa [Post] using hpost
           | div0 => simpa [Post] using hpost
           | defeat => simpa [Post] using hpost
-        have hk := ih k ((x, o + p.w) :: Γ) (upd env x v) _ (o + p.w) m1 env' tr res hpl2 (by omega)
+          | retv v => simpa [Post] using hpost
+        have hk := ih F D ra hra k ((x, o + p.w) :: Γ) (upd env x v) _ (o + p.w) m1 env' tr res hpl2 (by omega)
           hinv1 hd1 (by simpa using hwk) (by omega) (by omega) hex hck
-          (hs.sub (by simp [noTry]) (by simp [youLevel]) (conv _ _ (by omega)))
-        simpa using Concl.pre r1 hk (conv _ _ (by omega))
+          (hs.sub (by simp [noTry]) (by simp [youLevel]) (k1.mono (by omega)) (conv _ _ (by omega)))
+        simpa using Concl.pre r1 (k1.mono (by omega)) hk (conv _ _ (by omega))
     | assign x e k =>
       simp only [wfS, Bool.and_eq_true] at hwf
       obtain ⟨⟨hxin, hbe⟩, hwk⟩ := hwf
@@ -137,9 +364,9 @@ theorem cS_ok (lib : Placed p B) (F D ra : Nat) (hra : ra < 256 ^ p.w) :
       rw [show (cxOf p ck B).r1 = 3 * p.w from rfl] at hgv
       rw [hgv] at hg
       simp only at hg
-      have hcode : cS (cxOf p ck B) Γ pc o (.assign x e k)
+      have hcode : cS (cxOf p ck B) fa Γ pc o (.assign x e k)
           = (c ++ [stSlot (cxOf p ck B) (look Γ x) (v'.arg (cxOf p ck B))]) ++
-              cS (cxOf p ck B) Γ (pc + (c ++ [stSlot (cxOf p ck B) (look Γ x) (v'.arg (cxOf p ck B))]).length) o k := by
+              cS (cxOf p ck B) fa Γ (pc + (c ++ [stSlot (cxOf p ck B) (look Γ x) (v'.arg (cxOf p ck B))]).length) o k := by
         simp only [cS]; rw [show (cxOf p ck B).r1 = 3 * p.w from rfl, hgv]
       rw [hcode] at hpl hB hs ⊢
       obtain ⟨hpl12, hpl3⟩ := hpl.append
@@ -166,11 +393,13 @@ theorem cS_ok (lib : Placed p B) (F D ra : Nat) (hra : ra < 256 ^ p.w) :
           | reg a => exact Mem.readLE_lt _ _ _
           | slot s => exact Mem.readLE_lt _ _ _
         have hinv2 := assign_inv hw hinv1 hd x v hvM hxin hoD
-        have hk := ih k Γ (upd env x v) _ o _ env' tr res hpl3 (by omega)
-          hinv2 hd hwk (by omega) ho hex hck (hs.sub (by simp [noTry]) (by simp [youLevel]) (post_conv (by omega)))
+        have km2 : Keep p.w m (m1.writeLE (F - look Γ x) p.w v) F :=
+          (k1.mono (by omega)).trans' (Keep.write _ _ _ _ _ _ (by omega) (by omega))
+        have hk := ih F D ra hra k Γ (upd env x v) _ o _ env' tr res hpl3 (by omega)
+          hinv2 hd hwk (by omega) ho hex hck (hs.sub (by simp [noTry]) (by simp [youLevel]) km2 (post_conv (by omega)))
         have r01 : Reach (sphinx p) ⟨pc, m⟩ [] ⟨pc + (c.length + 1), m1.writeLE (F - look Γ x) p.w v⟩ := by
           simpa [Nat.add_assoc] using r1.trans st
-        simpa using Concl.pre r01 hk (post_conv (by omega))
+        simpa using Concl.pre r01 km2 hk (post_conv (by omega))
     | write e k =>
       simp only [wfS, Bool.and_eq_true] at hwf
       obtain ⟨hbe, hwk⟩ := hwf
@@ -187,16 +416,16 @@ theorem cS_ok (lib : Placed p B) (F D ra : Nat) (hra : ra < 256 ^ p.w) :
         exact fault _ _ _ _ m' _ r
       | some v =>
         simp only [exec, hev] at hex
-        cases hk : exec (256 ^ p.w) (8 * p.w) f env k with
+        cases hk : exec (256 ^ p.w) (8 * p.w) fns p.w f D o env k with
         | none => simp [hk] at hex
         | some rk =>
           obtain ⟨envk, trk, resk⟩ := rk
           simp only [hk, Option.bind_eq_bind, Option.bind_some, Option.pure_def, Option.some.injEq, Prod.mk.injEq] at hex
           obtain ⟨rfl, rfl, rfl⟩ := hex
           obtain ⟨m1, r1, k1⟩ := hwr.1 v hev
-          have hkk := ih k Γ env _ o m1 envk trk resk hpl2 (by omega)
-            (hinv.keep k1 ho) hd hwk (by omega) ho hk hck (hs.sub (by simp [noTry]) (by simp [youLevel]) (post_conv (by omega)))
-          exact Concl.pre r1 hkk (post_conv (by omega))
+          have hkk := ih F D ra hra k Γ env _ o m1 envk trk resk hpl2 (by omega)
+            (hinv.keep k1 ho) hd hwk (by omega) ho hk hck (hs.sub (by simp [noTry]) (by simp [youLevel]) (k1.mono (by omega)) (post_conv (by omega)))
+          exact Concl.pre r1 (k1.mono (by omega)) hkk (post_conv (by omega))
     | writeln e k =>
       cases e with
       | none =>
@@ -205,11 +434,11 @@ theorem cS_ok (lib : Placed p B) (F D ra : Nat) (hra : ra < 256 ^ p.w) :
         simp only [cS] at hpl hB hs ⊢
         have c0 := hpl 0 (by simp)
         simp only [List.getElem_cons_zero, Nat.add_zero] at c0
-        have hpl2 : PlacedAt p (pc + 1) (cS (cxOf p ck B) Γ (pc + 1) o k) := by
+        have hpl2 : PlacedAt p (pc + 1) (cS (cxOf p ck B) fa Γ (pc + 1) o k) := by
           have := (hpl.append (l₁ := [Instr.yld (.imm 10)])).2; simpa using this
         simp only [List.length_cons] at hB hs ⊢
         simp only [exec] at hex
-        cases hk : exec (256 ^ p.w) (8 * p.w) f env k with
+        cases hk : exec (256 ^ p.w) (8 * p.w) fns p.w f D o env k with
         | none => simp [hk] at hex
         | some rk =>
           obtain ⟨envk, trk, resk⟩ := rk
@@ -217,9 +446,9 @@ theorem cS_ok (lib : Placed p B) (F D ra : Nat) (hra : ra < 256 ^ p.w) :
           obtain ⟨rfl, rfl, rfl⟩ := hex
           have y := yld_reach (p := p) pc 10 m c0
           rw [show 10 % p.M % 256 = 10 from by unfold Prog.M; rw [Nat.mod_eq_of_lt (show 10 < 256 ^ p.w by omega)]] at y
-          have hkk := ih k Γ env _ o m envk trk resk hpl2 (by omega) hinv hd hwf hpk ho hk hck
-            (hs.sub (by simp [noTry]) (by simp [youLevel]) (post_conv (by omega)))
-          simpa using Concl.pre y hkk (post_conv (by omega))
+          have hkk := ih F D ra hra k Γ env _ o m envk trk resk hpl2 (by omega) hinv hd hwf hpk ho hk hck
+            (hs.sub (by simp [noTry]) (by simp [youLevel]) (Keep.refl _ _ _) (post_conv (by omega)))
+          simpa using Concl.pre y (Keep.refl _ _ _) hkk (post_conv (by omega))
       | some e =>
         simp only [wfS, Bool.and_eq_true] at hwf
         obtain ⟨hbe, hwk⟩ := hwf
@@ -237,7 +466,7 @@ theorem cS_ok (lib : Placed p B) (F D ra : Nat) (hra : ra < 256 ^ p.w) :
           exact fault _ _ _ _ m' _ r
         | some v =>
           simp only [exec, hev] at hex
-          cases hk : exec (256 ^ p.w) (8 * p.w) f env k with
+          cases hk : exec (256 ^ p.w) (8 * p.w) fns p.w f D o env k with
           | none => simp [hk] at hex
           | some rk =>
             obtain ⟨envk, trk, resk⟩ := rk
@@ -246,23 +475,23 @@ theorem cS_ok (lib : Placed p B) (F D ra : Nat) (hra : ra < 256 ^ p.w) :
             obtain ⟨m1, r1, k1⟩ := hwr.1 v hev
             have y := yld_reach (p := p) (pc + (cWrite (cxOf p ck B) Γ pc o e).length) 10 m1 (placed_one hpl2)
             rw [show 10 % p.M % 256 = 10 from by unfold Prog.M; rw [Nat.mod_eq_of_lt (show 10 < 256 ^ p.w by omega)]] at y
-            have hkk := ih k Γ env _ o m1 envk trk resk hpl3 (by omega)
-              (hinv.keep k1 ho) hd hwk (by omega) ho hk hck (hs.sub (by simp [noTry]) (by simp [youLevel]) (post_conv (by omega)))
+            have hkk := ih F D ra hra k Γ env _ o m1 envk trk resk hpl3 (by omega)
+              (hinv.keep k1 ho) hd hwk (by omega) ho hk hck (hs.sub (by simp [noTry]) (by simp [youLevel]) (k1.mono (by omega)) (post_conv (by omega)))
             have r01 : Reach (sphinx p) ⟨pc, m⟩ (outs (decimalW (256 ^ p.w) v) ++ [Ev.out 10])
                 ⟨pc + ((cWrite (cxOf p ck B) Γ pc o e).length + 1), m1⟩ := by
               simpa [Nat.add_assoc] using r1.trans y
-            simpa [List.append_assoc] using Concl.pre r01 hkk (post_conv (by omega))
+            simpa [List.append_assoc] using Concl.pre r01 (k1.mono (by omega)) hkk (post_conv (by omega))
     | putc c k =>
       simp only [wfS] at hwf
       simp only [pkS] at hpk
       simp only [cS] at hpl hB hs ⊢
       have c0 := hpl 0 (by simp)
       simp only [List.getElem_cons_zero, Nat.add_zero] at c0
-      have hpl2 : PlacedAt p (pc + 1) (cS (cxOf p ck B) Γ (pc + 1) o k) := by
+      have hpl2 : PlacedAt p (pc + 1) (cS (cxOf p ck B) fa Γ (pc + 1) o k) := by
         have := (hpl.append (l₁ := [Instr.yld (.imm (c % (cxOf p ck B).M))])).2; simpa using this
       simp only [List.length_cons] at hB hs ⊢
       simp only [exec] at hex
-      cases hk : exec (256 ^ p.w) (8 * p.w) f env k with
+      cases hk : exec (256 ^ p.w) (8 * p.w) fns p.w f D o env k with
       | none => simp [hk] at hex
       | some rk =>
         obtain ⟨envk, trk, resk⟩ := rk
@@ -271,9 +500,9 @@ theorem cS_ok (lib : Placed p B) (F D ra : Nat) (hra : ra < 256 ^ p.w) :
         have y := yld_reach (p := p) pc _ m c0
         rw [show c % (cxOf p ck B).M % p.M % 256 = c % 256 ^ p.w % 256 from by
           unfold Prog.M; show c % 256 ^ p.w % 256 ^ p.w % 256 = _; rw [Nat.mod_mod]] at y
-        have hkk := ih k Γ env _ o m envk trk resk hpl2 (by omega) hinv hd hwf hpk ho hk hck
-          (hs.sub (by simp [noTry]) (by simp [youLevel]) (post_conv (by omega)))
-        simpa using Concl.pre y hkk (post_conv (by omega))
+        have hkk := ih F D ra hra k Γ env _ o m envk trk resk hpl2 (by omega) hinv hd hwf hpk ho hk hck
+          (hs.sub (by simp [noTry]) (by simp [youLevel]) (Keep.refl _ _ _) (post_conv (by omega)))
+        simpa using Concl.pre y (Keep.refl _ _ _) hkk (post_conv (by omega))
     | block b k =>
       simp only [wfS, Bool.and_eq_true] at hwf
       simp only [pkS] at hpk
@@ -281,7 +510,7 @@ theorem cS_ok (lib : Placed p B) (F D ra : Nat) (hra : ra < 256 ^ p.w) :
       obtain ⟨hpl1, hpl2⟩ := hpl.append
       rw [List.length_append] at hB hs ⊢
       simp only [exec] at hex
-      cases hb1 : exec (256 ^ p.w) (8 * p.w) f env b with
+      cases hb1 : exec (256 ^ p.w) (8 * p.w) fns p.w f D o env b with
       | none => simp [hb1] at hex
       | some rb =>
         obtain ⟨env1, tr1, res1⟩ := rb
@@ -289,17 +518,22 @@ theorem cS_ok (lib : Placed p B) (F D ra : Nat) (hra : ra < 256 ^ p.w) :
         by_cases hn : res1 = .norm
         · subst hn
           simp only [if_true] at hex
-          cases hk : exec (256 ^ p.w) (8 * p.w) f env1 k with
+          cases hk : exec (256 ^ p.w) (8 * p.w) fns p.w f D o env1 k with
           | none => simp [hk] at hex
           | some rk =>
             obtain ⟨envk, trk, resk⟩ := rk
             simp only [hk, Option.bind_some, Option.pure_def, Option.some.injEq, Prod.mk.injEq] at hex
             obtain ⟨rfl, rfl, rfl⟩ := hex
-            have hsk : Safe p B ra Γ envk F D o (pc + (cS (cxOf p ck B) Γ pc o b).length +
-                (cS (cxOf p ck B) Γ (pc + (cS (cxOf p ck B) Γ pc o b).length) o k).length) resk k :=
-              hs.sub (k := k) (by simp only [noTry, Bool.and_eq_true]; exact fun h => h.2)
-                (by simp only [youLevel, Bool.and_eq_true]; exact fun h => h.2) (post_conv (by omega))
-            have hsb : Safe p B ra Γ env1 F D o (pc + (cS (cxOf p ck B) Γ pc o b).length) .norm b := by
+            -- the rest, from any state matching env1 at the end of `b` that is reachable from `m`
+            have contK : ∀ m1, SInv p Γ env1 m1 F D o ra → Keep p.w m m1 F →
+                Concl p B ra Γ envk F D o (pc + (cS (cxOf p ck B) fa Γ pc o b).length)
+                  (pc + (cS (cxOf p ck B) fa Γ pc o b).length +
+                    (cS (cxOf p ck B) fa Γ (pc + (cS (cxOf p ck B) fa Γ pc o b).length) o k).length) m1 trk resk :=
+              fun m1 hi1 km1 => ih F D ra hra k Γ env1 (pc + (cS (cxOf p ck B) fa Γ pc o b).length) o m1 envk trk resk hpl2 (by omega)
+                hi1 hd hwf.2 (by omega) ho hk hck
+                (hs.sub (k := k) (by simp only [noTry, Bool.and_eq_true]; exact fun h => h.2)
+                  (by simp only [youLevel, Bool.and_eq_true]; exact fun h => h.2) km1 (post_conv (by omega)))
+            have hsb : Safe p B ra Γ env1 F D o (pc + (cS (cxOf p ck B) fa Γ pc o b).length) m .norm b := by
               rcases hs with h | ⟨h1, h2⟩
               · left; simp only [noTry, Bool.and_eq_true] at h; exact h.1
               · right
@@ -307,33 +541,31 @@ theorem cS_ok (lib : Placed p B) (F D ra : Nat) (hra : ra < 256 ^ p.w) :
                 refine ⟨h1.1, fun st1 hp1 => ?_⟩
                 obtain ⟨pc1, m1⟩ := st1
                 simp only [Post] at hp1
-                obtain ⟨hpc1, hi1⟩ := hp1
+                obtain ⟨hpc1, hi1, km1⟩ := hp1
                 subst hpc1
-                have hkk := ih k Γ env1 (pc + (cS (cxOf p ck B) Γ pc o b).length) o m1 envk trk resk hpl2 (by omega) hi1 hd hwf.2 (by omega) ho hk hck hsk
-                obtain ⟨st', r2, hp2⟩ := hkk.2 (exec_no_defeat _ _ _ _ _ _ _ _ h1.2 hk)
-                exact (r2.exec (h2 st' (by refine post_conv ?_ st' hp2; omega))).2
-            have hbb := ih b Γ env pc o m env1 tr1 .norm hpl1 (by omega) hinv hd hwf.1 (by omega) ho hb1 (by simp) hsb
+                obtain ⟨st', r2, hp2⟩ := (contK m1 hi1 km1).2 (exec_no_defeat _ _ _ _ _ _ _ _ _ _ _ _ h1.2 hk)
+                exact (r2.exec (h2 st' (by refine post_conv ?_ st' (hp2.rebase km1); omega))).2
+            have hbb := ih F D ra hra b Γ env pc o m env1 tr1 .norm hpl1 (by omega) hinv hd hwf.1 (by omega) ho hb1 (by simp) hsb
             obtain ⟨st1, r1, hp1⟩ := hbb.2 (by decide)
             obtain ⟨pc1, m1⟩ := st1
             simp only [Post] at hp1
-            obtain ⟨hpc1, hi1⟩ := hp1
+            obtain ⟨hpc1, hi1, km1⟩ := hp1
             subst hpc1
-            have hkk := ih k Γ env1 (pc + (cS (cxOf p ck B) Γ pc o b).length) o m1 envk trk resk hpl2 (by omega) hi1 hd hwf.2 (by omega) ho hk hck hsk
-            exact Concl.pre r1 hkk (post_conv (by omega))
+            exact Concl.pre r1 km1 (contK m1 hi1 km1) (post_conv (by omega))
         · simp only [hn, if_false, Option.pure_def, Option.some.injEq, Prod.mk.injEq] at hex
           obtain ⟨rfl, rfl, rfl⟩ := hex
-          have convb : ∀ st', Post p B ra Γ env1 F D o (pc + (cS (cxOf p ck B) Γ pc o b).length) res1 st' →
-              Post p B ra Γ env1 F D o (pc + ((cS (cxOf p ck B) Γ pc o b).length + (cS (cxOf p ck B) Γ (pc + (cS (cxOf p ck B) Γ pc o b).length) o k).length)) res1 st' := by
-            intro st' h
+          have convb : ∀ (e1 e2 : Nat) st', Post p B ra Γ env1 F D o e1 m res1 st' → Post p B ra Γ env1 F D o e2 m res1 st' := by
+            intro e1 e2 st' h
             cases res1 with
             | norm => exact absurd rfl hn
             | returned => simpa [Post] using h
             | div0 => simpa [Post] using h
             | defeat => simpa [Post] using h
-          have hbb := ih b Γ env pc o m env1 tr1 res1 hpl1 (by omega) hinv hd hwf.1 (by omega) ho hb1 hck
+            | retv v => simpa [Post] using h
+          have hbb := ih F D ra hra b Γ env pc o m env1 tr1 res1 hpl1 (by omega) hinv hd hwf.1 (by omega) ho hb1 hck
             (hs.sub (by simp only [noTry, Bool.and_eq_true]; exact fun h => h.1)
-              (by simp only [youLevel, Bool.and_eq_true]; exact fun h => h.1) convb)
-          exact ⟨hbb.1, fun hnd => by obtain ⟨st1, r1, hp1⟩ := hbb.2 hnd; exact ⟨st1, r1, convb st1 hp1⟩⟩
+              (by simp only [youLevel, Bool.and_eq_true]; exact fun h => h.1) (Keep.refl _ _ _) (convb _ _))
+          exact ⟨hbb.1, fun hnd => by obtain ⟨st1, r1, hp1⟩ := hbb.2 hnd; exact ⟨st1, r1, convb _ _ st1 hp1⟩⟩
     | defeat k =>
       simp only [exec, Option.some.injEq, Prod.mk.injEq] at hex
       obtain ⟨rfl, rfl, rfl⟩ := hex
@@ -364,9 +596,9 @@ theorem cS_ok (lib : Placed p B) (F D ra : Nat) (hra : ra < 256 ^ p.w) :
         | false =>
           simp only [exec, hev] at hex
           obtain ⟨m1, r1, k1⟩ := hcd.1 hev
-          have hkk := ih k Γ env _ o m1 env' tr res hpl2 (by omega) (hinv.keep k1 ho) hd hwk (by omega) ho hex hck
-            (hs.sub (by simp [noTry]) (by simp [youLevel]) (post_conv (by omega)))
-          simpa using Concl.pre r1 hkk (post_conv (by omega))
+          have hkk := ih F D ra hra k Γ env _ o m1 env' tr res hpl2 (by omega) (hinv.keep k1 ho) hd hwk (by omega) ho hex hck
+            (hs.sub (by simp [noTry]) (by simp [youLevel]) (k1.mono (by omega)) (post_conv (by omega)))
+          simpa using Concl.pre r1 (k1.mono (by omega)) hkk (post_conv (by omega))
     | ifb c t e k =>
       simp only [wfS, Bool.and_eq_true] at hwf
       obtain ⟨⟨⟨hbc, hwt⟩, hwe⟩, hwk⟩ := hwf
@@ -375,8 +607,8 @@ theorem cS_ok (lib : Placed p B) (F D ra : Nat) (hra : ra < 256 ^ p.w) :
       have hlenA : (cB (cxOf p ck B) Γ pc o c [] (goto (pc + lenB ck c 0 2 false true + lenS ck t + 2))).length
           = lenB ck c 0 2 false true := by rw [cB_len]; simp
       generalize hnC : lenB ck c 0 2 false true = nC at *
-      have hlenT : (cS (cxOf p ck B) Γ (pc + nC) o t).length = lenS ck t := cS_len _ _ _ _ _
-      have hlenE : (cS (cxOf p ck B) Γ (pc + nC + lenS ck t + 2) o e).length = lenS ck e := cS_len _ _ _ _ _
+      have hlenT : (cS (cxOf p ck B) fa Γ (pc + nC) o t).length = lenS ck t := cS_len _ _ _ _ _ _
+      have hlenE : (cS (cxOf p ck B) fa Γ (pc + nC + lenS ck t + 2) o e).length = lenS ck e := cS_len _ _ _ _ _ _
       generalize hnT : lenS ck t = nT at *
       generalize hnE : lenS ck e = nE at *
       obtain ⟨hpl1234, hplK⟩ := hpl.append
@@ -398,132 +630,106 @@ theorem cS_ok (lib : Placed p B) (F D ra : Nat) (hra : ra < 256 ^ p.w) :
         simp only [exec, hev] at hex
         obtain ⟨m0, r0, k0⟩ := hc.1 cv hev
         have hinv0 := hinv.keep k0 ho
-        -- the continuation after the `if`, from any state matching `env1` at `end_else`
-        have contK : ∀ (env1 : Env) (m1 : Mem) (envk : Env) (trk : List Ev) (resk : Res),
-            SInv p Γ env1 m1 F D o ra → exec (256 ^ p.w) (8 * p.w) f env1 k = some (envk, trk, resk) →
-            (resk = .div0 → ck = true) →
-            Safe p B ra Γ envk F D o (pc + nC + nT + 2 + nE + (cS (cxOf p ck B) Γ (pc + nC + nT + 2 + nE) o k).length) resk k →
-            Concl p B ra Γ envk F D o (pc + nC + nT + 2 + nE)
-              (pc + nC + nT + 2 + nE + (cS (cxOf p ck B) Γ (pc + nC + nT + 2 + nE) o k).length) m1 trk resk :=
-          fun env1 m1 envk trk resk hi1 hk hckk hsk =>
-            ih k Γ env1 _ o m1 envk trk resk hplK (by omega) hi1 hd hwk (by omega) ho hk hckk hsk
+        have km0 : Keep p.w m m0 F := k0.mono (by omega)
+        have convN : ∀ (envx : Env) (resx : Res), resx ≠ .norm → ∀ (e1 e2 : Nat) st',
+            Post p B ra Γ envx F D o e1 m resx st' → Post p B ra Γ envx F D o e2 m resx st' := by
+          intro envx resx hx e1 e2 st' h
+          cases resx with
+          | norm => exact absurd rfl hx
+          | returned => simpa [Post] using h
+          | div0 => simpa [Post] using h
+          | defeat => simpa [Post] using h
+          | retv v => simpa [Post] using h
+        -- the branch taken, its code address and the address where it ends
+        have hbranch : ∀ (X : S) (pcX nX : Nat), (cS (cxOf p ck B) fa Γ pcX o X).length = nX →
+            PlacedAt p pcX (cS (cxOf p ck B) fa Γ pcX o X) → pcX + nX ≤ B → wfS (Γ.map Prod.fst) X = true → pkS p.w o X ≤ D →
+            (noTry (.ifb c t e k) = true → noTry X = true) → (youLevel (.ifb c t e k) = true → youLevel X = true) →
+            Reach (sphinx p) ⟨pc, m⟩ [] ⟨pcX, m0⟩ →
+            (∀ m1, Reach (sphinx p) ⟨pcX + nX, m1⟩ [] ⟨pc + nC + nT + 2 + nE, m1⟩) →
+            ∀ (env1 : Env) (tr1 : List Ev) (res1 : Res),
+              exec (256 ^ p.w) (8 * p.w) fns p.w f D o env X = some (env1, tr1, res1) →
+              (do let (env1, tr1, r1) ← some (env1, tr1, res1)
+                  if r1 = .norm then
+                    let (env2, tr2, r2) ← exec (256 ^ p.w) (8 * p.w) fns p.w f D o env1 k
+                    pure (env2, tr1 ++ tr2, r2)
+                  else pure (env1, tr1, r1)) = some (env', tr, res) →
+              Concl p B ra Γ env' F D o pc (pc + nC + nT + 2 + nE + (cS (cxOf p ck B) fa Γ (pc + nC + nT + 2 + nE) o k).length) m tr res := by
+          intro X pcX nX hlenX hplX hBX hwX hpkX hntX hylX rX gX env1 tr1 res1 hb1 hex
+          simp only [Option.bind_eq_bind, Option.bind_some] at hex
+          by_cases hn : res1 = .norm
+          · subst hn
+            simp only [if_true] at hex
+            cases hk : exec (256 ^ p.w) (8 * p.w) fns p.w f D o env1 k with
+            | none => simp [hk] at hex
+            | some rk =>
+              obtain ⟨envk, trk, resk⟩ := rk
+              simp only [hk, Option.bind_some, Option.pure_def, Option.some.injEq, Prod.mk.injEq] at hex
+              obtain ⟨rfl, rfl, rfl⟩ := hex
+              have contK : ∀ m1, SInv p Γ env1 m1 F D o ra → Keep p.w m m1 F →
+                  Concl p B ra Γ envk F D o (pc + nC + nT + 2 + nE)
+                    (pc + nC + nT + 2 + nE + (cS (cxOf p ck B) fa Γ (pc + nC + nT + 2 + nE) o k).length) m1 trk resk :=
+                fun m1 hi1 km1 => ih F D ra hra k Γ env1 _ o m1 envk trk resk hplK (by omega) hi1 hd hwk (by omega) ho hk hck
+                  (hs.sub (k := k) (by simp only [noTry, Bool.and_eq_true]; exact fun h => h.2)
+                    (by simp only [youLevel, Bool.and_eq_true]; exact fun h => h.2) km1 (post_conv rfl))
+              have hsX : Safe p B ra Γ env1 F D o (pcX + nX) m0 .norm X := by
+                rcases hs with h | ⟨h1, h2⟩
+                · left; exact hntX (by simpa [cS] using h)
+                · right
+                  have h1y : youLevel (.ifb c t e k) = true := h1
+                  simp only [youLevel, Bool.and_eq_true] at h1
+                  refine ⟨hylX h1y, fun st1 hp1 => ?_⟩
+                  obtain ⟨pc1, m1⟩ := st1
+                  simp only [Post] at hp1
+                  obtain ⟨hpc1, hi1, km1⟩ := hp1
+                  subst hpc1
+                  have km := km0.trans' km1
+                  obtain ⟨st', r2, hp2⟩ := (contK m1 hi1 km).2 (exec_no_defeat _ _ _ _ _ _ _ _ _ _ _ _ h1.2 hk)
+                  exact (((gX m1).trans r2).exec (h2 st' (hp2.rebase km))).2
+              have hxx := ih F D ra hra X Γ env pcX o m0 env1 tr1 .norm hplX (by rw [hlenX]; omega) hinv0 hd hwX hpkX ho hb1 (by simp)
+                (by rw [hlenX]; exact hsX)
+              rw [hlenX] at hxx
+              obtain ⟨st1, r1, hp1⟩ := hxx.2 (by decide)
+              obtain ⟨pc1, m1⟩ := st1
+              simp only [Post] at hp1
+              obtain ⟨hpc1, hi1, km1⟩ := hp1
+              subst hpc1
+              have km := km0.trans' km1
+              have r01 : Reach (sphinx p) ⟨pc, m⟩ tr1 ⟨pc + nC + nT + 2 + nE, m1⟩ := by
+                simpa using rX.trans (r1.trans (gX m1))
+              exact Concl.pre r01 km (contK m1 hi1 km) (post_conv rfl)
+          · simp only [hn, if_false, Option.pure_def, Option.some.injEq, Prod.mk.injEq] at hex
+            obtain ⟨rfl, rfl, rfl⟩ := hex
+            have hsX : Safe p B ra Γ env1 F D o (pcX + nX) m0 res1 X :=
+              hs.sub (by intro h; exact hntX (by simpa [cS] using h)) (by intro h; exact hylX h) km0 (convN env1 res1 hn _ _)
+            have hxx := ih F D ra hra X Γ env pcX o m0 env1 tr1 res1 hplX (by rw [hlenX]; omega) hinv0 hd hwX hpkX ho hb1 hck
+              (by rw [hlenX]; exact hsX)
+            rw [hlenX] at hxx
+            simpa using Concl.pre rX km0 hxx (convN env1 res1 hn _ _)
         cases cv with
         | true =>
           simp only [if_true, Option.getD_none] at r0
           simp only [if_true] at hex
-          cases hb1 : exec (256 ^ p.w) (8 * p.w) f env t with
+          cases hb1 : exec (256 ^ p.w) (8 * p.w) fns p.w f D o env t with
           | none => simp [hb1] at hex
           | some rb =>
             obtain ⟨env1, tr1, res1⟩ := rb
-            simp only [hb1, Option.bind_eq_bind, Option.bind_some] at hex
-            by_cases hn : res1 = .norm
-            · subst hn
-              simp only [if_true] at hex
-              cases hk : exec (256 ^ p.w) (8 * p.w) f env1 k with
-              | none => simp [hk] at hex
-              | some rk =>
-                obtain ⟨envk, trk, resk⟩ := rk
-                simp only [hk, Option.bind_some, Option.pure_def, Option.some.injEq, Prod.mk.injEq] at hex
-                obtain ⟨rfl, rfl, rfl⟩ := hex
-                have hsk : Safe p B ra Γ envk F D o (pc + nC + nT + 2 + nE +
-                    (cS (cxOf p ck B) Γ (pc + nC + nT + 2 + nE) o k).length) resk k :=
-                  hs.sub (k := k) (by simp only [noTry, Bool.and_eq_true]; exact fun h => h.2)
-                    (by simp only [youLevel, Bool.and_eq_true]; exact fun h => h.2) (post_conv (by omega))
-                have hst : Safe p B ra Γ env1 F D o (pc + nC + nT) .norm t := by
-                  rcases hs with h | ⟨h1, h2⟩
-                  · left; simp only [noTry, Bool.and_eq_true] at h; exact h.1.1
-                  · right
-                    simp only [youLevel, Bool.and_eq_true] at h1
-                    refine ⟨h1.1.1, fun st1 hp1 => ?_⟩
-                    obtain ⟨pc1, m1⟩ := st1
-                    simp only [Post] at hp1
-                    obtain ⟨hpc1, hi1⟩ := hp1
-                    subst hpc1
-                    have g := goto_reach lib (pc + nC + nT) (pc + nC + nT + 2 + nE) m1 hplG hendM
-                    obtain ⟨st', r2, hp2⟩ := (contK env1 m1 envk trk resk hi1 hk hck hsk).2 (exec_no_defeat _ _ _ _ _ _ _ _ h1.2 hk)
-                    exact ((g.trans r2).exec (h2 st' (by refine post_conv ?_ st' hp2; omega))).2
-                have htt := ih t Γ env (pc + nC) o m0 env1 tr1 .norm hplT (by rw [hlenT]; omega) hinv0 hd hwt (by omega) ho hb1 (by simp)
-                  (by rw [hlenT]; exact hst)
-                rw [hlenT] at htt
-                obtain ⟨st1, r1, hp1⟩ := htt.2 (by decide)
-                obtain ⟨pc1, m1⟩ := st1
-                simp only [Post] at hp1
-                obtain ⟨hpc1, hi1⟩ := hp1
-                subst hpc1
-                have g := goto_reach lib (pc + nC + nT) (pc + nC + nT + 2 + nE) m1 hplG hendM
-                have r01 : Reach (sphinx p) ⟨pc, m⟩ tr1 ⟨pc + nC + nT + 2 + nE, m1⟩ := by
-                  simpa using r0.trans (r1.trans g)
-                exact Concl.pre r01 (contK env1 m1 envk trk resk hi1 hk hck hsk) (post_conv (by omega))
-            · simp only [hn, if_false, Option.pure_def, Option.some.injEq, Prod.mk.injEq] at hex
-              obtain ⟨rfl, rfl, rfl⟩ := hex
-              have convt : ∀ (e1 e2 : Nat) st', Post p B ra Γ env1 F D o e1 res1 st' → Post p B ra Γ env1 F D o e2 res1 st' := by
-                intro e1 e2 st' h
-                cases res1 with
-                | norm => exact absurd rfl hn
-                | returned => simpa [Post] using h
-                | div0 => simpa [Post] using h
-                | defeat => simpa [Post] using h
-              have htt := ih t Γ env (pc + nC) o m0 env1 tr1 res1 hplT (by rw [hlenT]; omega) hinv0 hd hwt (by omega) ho hb1 hck
-                (hs.sub (by simp only [noTry, Bool.and_eq_true]; exact fun h => h.1.1)
-                  (by simp only [youLevel, Bool.and_eq_true]; exact fun h => h.1.1) (convt _ _))
-              simpa using Concl.pre r0 htt (convt _ _)
+            rw [hb1] at hex
+            exact hbranch t (pc + nC) nT hlenT hplT (by omega) hwt (by omega)
+              (by simp only [noTry, Bool.and_eq_true]; exact fun h => h.1.1)
+              (by simp only [youLevel, Bool.and_eq_true]; exact fun h => h.1.1) r0
+              (fun m1 => goto_reach lib (pc + nC + nT) (pc + nC + nT + 2 + nE) m1 hplG hendM) env1 tr1 res1 hb1 hex
         | false =>
           simp only [Bool.false_eq_true, if_false, Option.getD_some] at r0
           simp only [Bool.false_eq_true, if_false] at hex
-          cases hb1 : exec (256 ^ p.w) (8 * p.w) f env e with
+          cases hb1 : exec (256 ^ p.w) (8 * p.w) fns p.w f D o env e with
           | none => simp [hb1] at hex
           | some rb =>
             obtain ⟨env1, tr1, res1⟩ := rb
-            simp only [hb1, Option.bind_eq_bind, Option.bind_some] at hex
-            by_cases hn : res1 = .norm
-            · subst hn
-              simp only [if_true] at hex
-              cases hk : exec (256 ^ p.w) (8 * p.w) f env1 k with
-              | none => simp [hk] at hex
-              | some rk =>
-                obtain ⟨envk, trk, resk⟩ := rk
-                simp only [hk, Option.bind_some, Option.pure_def, Option.some.injEq, Prod.mk.injEq] at hex
-                obtain ⟨rfl, rfl, rfl⟩ := hex
-                have hsk : Safe p B ra Γ envk F D o (pc + nC + nT + 2 + nE +
-                    (cS (cxOf p ck B) Γ (pc + nC + nT + 2 + nE) o k).length) resk k :=
-                  hs.sub (k := k) (by simp only [noTry, Bool.and_eq_true]; exact fun h => h.2)
-                    (by simp only [youLevel, Bool.and_eq_true]; exact fun h => h.2) (post_conv (by omega))
-                have hse : Safe p B ra Γ env1 F D o (pc + nC + nT + 2 + nE) .norm e := by
-                  rcases hs with h | ⟨h1, h2⟩
-                  · left; simp only [noTry, Bool.and_eq_true] at h; exact h.1.2
-                  · right
-                    simp only [youLevel, Bool.and_eq_true] at h1
-                    refine ⟨h1.1.2, fun st1 hp1 => ?_⟩
-                    obtain ⟨pc1, m1⟩ := st1
-                    simp only [Post] at hp1
-                    obtain ⟨hpc1, hi1⟩ := hp1
-                    subst hpc1
-                    obtain ⟨st', r2, hp2⟩ := (contK env1 m1 envk trk resk hi1 hk hck hsk).2 (exec_no_defeat _ _ _ _ _ _ _ _ h1.2 hk)
-                    exact (r2.exec (h2 st' (by refine post_conv ?_ st' hp2; omega))).2
-                have hee := ih e Γ env (pc + nC + nT + 2) o m0 env1 tr1 .norm hplE (by rw [hlenE]; omega) hinv0 hd hwe (by omega) ho hb1 (by simp)
-                  (by rw [hlenE]; exact hse)
-                rw [hlenE] at hee
-                obtain ⟨st1, r1, hp1⟩ := hee.2 (by decide)
-                obtain ⟨pc1, m1⟩ := st1
-                simp only [Post] at hp1
-                obtain ⟨hpc1, hi1⟩ := hp1
-                subst hpc1
-                have r01 : Reach (sphinx p) ⟨pc, m⟩ tr1 ⟨pc + nC + nT + 2 + nE, m1⟩ := by
-                  simpa using r0.trans r1
-                exact Concl.pre r01 (contK env1 m1 envk trk resk hi1 hk hck hsk) (post_conv (by omega))
-            · simp only [hn, if_false, Option.pure_def, Option.some.injEq, Prod.mk.injEq] at hex
-              obtain ⟨rfl, rfl, rfl⟩ := hex
-              have convt : ∀ (e1 e2 : Nat) st', Post p B ra Γ env1 F D o e1 res1 st' → Post p B ra Γ env1 F D o e2 res1 st' := by
-                intro e1 e2 st' h
-                cases res1 with
-                | norm => exact absurd rfl hn
-                | returned => simpa [Post] using h
-                | div0 => simpa [Post] using h
-                | defeat => simpa [Post] using h
-              have hee := ih e Γ env (pc + nC + nT + 2) o m0 env1 tr1 res1 hplE (by rw [hlenE]; omega) hinv0 hd hwe (by omega) ho hb1 hck
-                (hs.sub (by simp only [noTry, Bool.and_eq_true]; exact fun h => h.1.2)
-                  (by simp only [youLevel, Bool.and_eq_true]; exact fun h => h.1.2) (convt _ _))
-              simpa using Concl.pre r0 hee (convt _ _)
+            rw [hb1] at hex
+            exact hbranch e (pc + nC + nT + 2) nE hlenE hplE (by omega) hwe (by omega)
+              (by simp only [noTry, Bool.and_eq_true]; exact fun h => h.1.2)
+              (by simp only [youLevel, Bool.and_eq_true]; exact fun h => h.1.2) r0
+              (fun m1 => by simpa using (Reach.refl (sys := sphinx p) (s := ⟨pc + nC + nT + 2 + nE, m1⟩))) env1 tr1 res1 hb1 hex
     | loop c body cont k =>
       have hwf0 := hwf
       have hpk0 := hpk
@@ -537,8 +743,8 @@ theorem cS_ok (lib : Placed p B) (F D ra : Nat) (hra : ra < 256 ^ p.w) :
       have hlenA : (cB (cxOf p ck B) Γ pc o c [] (goto (pc + lenB ck c 0 2 false true + lenS ck body + lenS ck cont + 2))).length
           = lenB ck c 0 2 false true := by rw [cB_len]; simp
       generalize hnC : lenB ck c 0 2 false true = nC at *
-      have hlenT : (cS (cxOf p ck B) Γ (pc + nC) o body).length = lenS ck body := cS_len _ _ _ _ _
-      have hlenE : (cS (cxOf p ck B) Γ (pc + nC + lenS ck body) o cont).length = lenS ck cont := cS_len _ _ _ _ _
+      have hlenT : (cS (cxOf p ck B) fa Γ (pc + nC) o body).length = lenS ck body := cS_len _ _ _ _ _ _
+      have hlenE : (cS (cxOf p ck B) fa Γ (pc + nC + lenS ck body) o cont).length = lenS ck cont := cS_len _ _ _ _ _ _
       generalize hnT : lenS ck body = nT at *
       generalize hnE : lenS ck cont = nE at *
       obtain ⟨hpl1234, hplK⟩ := hpl.append
@@ -547,8 +753,8 @@ theorem cS_ok (lib : Placed p B) (F D ra : Nat) (hra : ra < 256 ^ p.w) :
       obtain ⟨hplA, hplT⟩ := hpl12.append
       simp only [List.length_append, hlenA, hlenT, hlenE, goto_len, ← Nat.add_assoc] at hB hplK hplE hplG hplT hs ⊢
       have hendM : pc + nC + nT + nE + 2 < 256 ^ p.w := by simp [stdlibLength] at hBM; omega
-      have etot : pc + (cS (cxOf p ck B) Γ pc o (.loop c body cont k)).length
-          = pc + nC + nT + nE + 2 + (cS (cxOf p ck B) Γ (pc + nC + nT + nE + 2) o k).length := by
+      have etot : pc + (cS (cxOf p ck B) fa Γ pc o (.loop c body cont k)).length
+          = pc + nC + nT + nE + 2 + (cS (cxOf p ck B) fa Γ (pc + nC + nT + nE + 2) o k).length := by
         simp only [cS, hnC, hnT, hnE, List.length_append, hlenA, hlenT, hlenE, goto_len]; omega
       rw [etot] at hs0
       have hc := cB_ok (ck := ck) lib Γ env F D c pc o none (some (pc + nC + nT + nE + 2)) m hplA (by rw [brCode, brCode, hlenA]; omega)
@@ -563,35 +769,37 @@ theorem cS_ok (lib : Placed p B) (F D ra : Nat) (hra : ra < 256 ^ p.w) :
       | some cv =>
         obtain ⟨m0, r0, k0⟩ := hc.1 cv hev
         have hinv0 := hinv.keep k0 ho
+        have km0 : Keep p.w m m0 F := k0.mono (by omega)
         cases cv with
         | false =>
           simp only [exec, hev] at hex
           simp only [Bool.false_eq_true, if_false, Option.getD_some] at r0
-          have hkk := ih k Γ env (pc + nC + nT + nE + 2) o m0 env' tr res hplK (by omega) hinv0 hd hwk (by omega) ho hex hck
+          have hkk := ih F D ra hra k Γ env (pc + nC + nT + nE + 2) o m0 env' tr res hplK (by omega) hinv0 hd hwk (by omega) ho hex hck
             (hs.sub (by simp only [noTry, Bool.and_eq_true]; exact fun h => h.2)
-              (by simp only [youLevel, Bool.and_eq_true]; exact fun h => h.2) (post_conv rfl))
-          simpa using Concl.pre r0 hkk (post_conv rfl)
+              (by simp only [youLevel, Bool.and_eq_true]; exact fun h => h.2) km0 (post_conv rfl))
+          simpa using Concl.pre r0 km0 hkk (post_conv rfl)
         | true =>
           simp only [exec, hev] at hex
           simp only [if_true, Option.getD_none] at r0
-          cases hb1 : exec (256 ^ p.w) (8 * p.w) f env body with
+          cases hb1 : exec (256 ^ p.w) (8 * p.w) fns p.w f D o env body with
           | none => simp [hb1] at hex
           | some rb =>
             obtain ⟨env1, tr1, res1⟩ := rb
             simp only [hb1, Option.bind_eq_bind, Option.bind_some] at hex
             -- non-normal exits of a part are exits of the whole loop
             have convN : ∀ (envx : Env) (resx : Res), resx ≠ .norm → ∀ (e1 e2 : Nat) st',
-                Post p B ra Γ envx F D o e1 resx st' → Post p B ra Γ envx F D o e2 resx st' := by
+                Post p B ra Γ envx F D o e1 m resx st' → Post p B ra Γ envx F D o e2 m resx st' := by
               intro envx resx hx e1 e2 st' h
               cases resx with
               | norm => exact absurd rfl hx
               | returned => simpa [Post] using h
               | div0 => simpa [Post] using h
               | defeat => simpa [Post] using h
+              | retv v => simpa [Post] using h
             by_cases hn1 : res1 = .norm
             · subst hn1
               simp only [if_true] at hex
-              cases hb2 : exec (256 ^ p.w) (8 * p.w) f env1 cont with
+              cases hb2 : exec (256 ^ p.w) (8 * p.w) fns p.w f D o env1 cont with
               | none => simp [hb2] at hex
               | some rc =>
                 obtain ⟨env2, tr2, res2⟩ := rc
@@ -599,20 +807,21 @@ theorem cS_ok (lib : Placed p B) (F D ra : Nat) (hra : ra < 256 ^ p.w) :
                 by_cases hn2 : res2 = .norm
                 · subst hn2
                   simp only [if_true] at hex
-                  cases hb3 : exec (256 ^ p.w) (8 * p.w) f env2 (.loop c body cont k) with
+                  cases hb3 : exec (256 ^ p.w) (8 * p.w) fns p.w f D o env2 (.loop c body cont k) with
                   | none => simp [hb3] at hex
                   | some rl =>
                     obtain ⟨env3, tr3, res3⟩ := rl
                     simp only [hb3, Option.bind_some, Option.pure_def, Option.some.injEq, Prod.mk.injEq] at hex
                     obtain ⟨rfl, rfl, rfl⟩ := hex
-                    -- the next round, from any state matching env2
-                    have L : ∀ m2, SInv p Γ env2 m2 F D o ra →
-                        Concl p B ra Γ env3 F D o pc (pc + nC + nT + nE + 2 + (cS (cxOf p ck B) Γ (pc + nC + nT + nE + 2) o k).length) m2 tr3 res3 := by
-                      intro m2 hi2
-                      have := ih (.loop c body cont k) Γ env2 pc o m2 env3 tr3 res3 hpl0 hB0 hi2 hd hwf0 hpk0 ho hb3 hck
-                        (by rw [etot]; exact hs0)
+                    -- the next round, from any state matching env2 that is reachable from m
+                    have L : ∀ m2, SInv p Γ env2 m2 F D o ra → Keep p.w m m2 F →
+                        Concl p B ra Γ env3 F D o pc (pc + nC + nT + nE + 2 + (cS (cxOf p ck B) fa Γ (pc + nC + nT + nE + 2) o k).length) m2 tr3 res3 := by
+                      intro m2 hi2 km2
+                      have := ih F D ra hra (.loop c body cont k) Γ env2 pc o m2 env3 tr3 res3 hpl0 hB0 hi2 hd hwf0 hpk0 ho hb3 hck
+                        (by rw [etot]; exact hs0.sub (fun h => h) (fun h => h) km2 (post_conv rfl))
                       rw [etot] at this; exact this
-                    have hsc : Safe p B ra Γ env2 F D o (pc + nC + nT + nE) .norm cont := by
+                    have hsc : ∀ m1, Keep p.w m m1 F → Safe p B ra Γ env2 F D o (pc + nC + nT + nE) m1 .norm cont := by
+                      intro m1 km1
                       rcases hs0 with h | ⟨h1, h2⟩
                       · left; simp only [noTry, Bool.and_eq_true] at h; exact h.1.2
                       · right
@@ -621,12 +830,13 @@ theorem cS_ok (lib : Placed p B) (F D ra : Nat) (hra : ra < 256 ^ p.w) :
                         refine ⟨h1.1.2, fun st2 hp2 => ?_⟩
                         obtain ⟨pc2, m2⟩ := st2
                         simp only [Post] at hp2
-                        obtain ⟨hpc2, hi2⟩ := hp2
+                        obtain ⟨hpc2, hi2, k12⟩ := hp2
                         subst hpc2
+                        have km2 := km1.trans' k12
                         have g := goto_reach lib (pc + nC + nT + nE) pc m2 hplG (by omega)
-                        obtain ⟨st', r3, hp3⟩ := (L m2 hi2).2 (exec_no_defeat _ _ _ _ _ _ _ _ h1' hb3)
-                        exact ((g.trans r3).exec (h2 st' hp3)).2
-                    have hsbd : Safe p B ra Γ env1 F D o (pc + nC + nT) .norm body := by
+                        obtain ⟨st', r3, hp3⟩ := (L m2 hi2 km2).2 (exec_no_defeat _ _ _ _ _ _ _ _ _ _ _ _ h1' hb3)
+                        exact ((g.trans r3).exec (h2 st' (hp3.rebase km2))).2
+                    have hsbd : Safe p B ra Γ env1 F D o (pc + nC + nT) m0 .norm body := by
                       rcases hs0 with h | ⟨h1, h2⟩
                       · left; simp only [noTry, Bool.and_eq_true] at h; exact h.1.1
                       · right
@@ -635,82 +845,87 @@ theorem cS_ok (lib : Placed p B) (F D ra : Nat) (hra : ra < 256 ^ p.w) :
                         refine ⟨h1.1.1, fun st1 hp1 => ?_⟩
                         obtain ⟨pc1, m1⟩ := st1
                         simp only [Post] at hp1
-                        obtain ⟨hpc1, hi1⟩ := hp1
+                        obtain ⟨hpc1, hi1, k01⟩ := hp1
                         subst hpc1
-                        have hcc := ih cont Γ env1 (pc + nC + nT) o m1 env2 tr2 .norm hplE (by rw [hlenE]; omega) hi1 hd hwc (by omega) ho hb2 (by simp)
-                          (by rw [hlenE]; exact hsc)
+                        have km1 := km0.trans' k01
+                        have hcc := ih F D ra hra cont Γ env1 (pc + nC + nT) o m1 env2 tr2 .norm hplE (by rw [hlenE]; omega) hi1 hd hwc (by omega) ho hb2 (by simp)
+                          (by rw [hlenE]; exact hsc m1 km1)
                         rw [hlenE] at hcc
                         obtain ⟨st2, r2, hp2⟩ := hcc.2 (by decide)
                         obtain ⟨pc2, m2⟩ := st2
                         simp only [Post] at hp2
-                        obtain ⟨hpc2, hi2⟩ := hp2
+                        obtain ⟨hpc2, hi2, k12⟩ := hp2
                         subst hpc2
+                        have km2 := km1.trans' k12
                         have g := goto_reach lib (pc + nC + nT + nE) pc m2 hplG (by omega)
-                        obtain ⟨st', r3, hp3⟩ := (L m2 hi2).2 (exec_no_defeat _ _ _ _ _ _ _ _ h1' hb3)
-                        exact ((r2.trans (g.trans r3)).exec (h2 st' hp3)).2
-                    have hbb := ih body Γ env (pc + nC) o m0 env1 tr1 .norm hplT (by rw [hlenT]; omega) hinv0 hd hwb (by omega) ho hb1 (by simp)
+                        obtain ⟨st', r3, hp3⟩ := (L m2 hi2 km2).2 (exec_no_defeat _ _ _ _ _ _ _ _ _ _ _ _ h1' hb3)
+                        exact ((r2.trans (g.trans r3)).exec (h2 st' (hp3.rebase km2))).2
+                    have hbb := ih F D ra hra body Γ env (pc + nC) o m0 env1 tr1 .norm hplT (by rw [hlenT]; omega) hinv0 hd hwb (by omega) ho hb1 (by simp)
                       (by rw [hlenT]; exact hsbd)
                     rw [hlenT] at hbb
                     obtain ⟨st1, r1, hp1⟩ := hbb.2 (by decide)
                     obtain ⟨pc1, m1⟩ := st1
                     simp only [Post] at hp1
-                    obtain ⟨hpc1, hi1⟩ := hp1
+                    obtain ⟨hpc1, hi1, k01⟩ := hp1
                     subst hpc1
-                    have hcc := ih cont Γ env1 (pc + nC + nT) o m1 env2 tr2 .norm hplE (by rw [hlenE]; omega) hi1 hd hwc (by omega) ho hb2 (by simp)
-                      (by rw [hlenE]; exact hsc)
+                    have km1 := km0.trans' k01
+                    have hcc := ih F D ra hra cont Γ env1 (pc + nC + nT) o m1 env2 tr2 .norm hplE (by rw [hlenE]; omega) hi1 hd hwc (by omega) ho hb2 (by simp)
+                      (by rw [hlenE]; exact hsc m1 km1)
                     rw [hlenE] at hcc
                     obtain ⟨st2, r2, hp2⟩ := hcc.2 (by decide)
                     obtain ⟨pc2, m2⟩ := st2
                     simp only [Post] at hp2
-                    obtain ⟨hpc2, hi2⟩ := hp2
+                    obtain ⟨hpc2, hi2, k12⟩ := hp2
                     subst hpc2
+                    have km2 := km1.trans' k12
                     have g := goto_reach lib (pc + nC + nT + nE) pc m2 hplG (by omega)
                     have r02 : Reach (sphinx p) ⟨pc, m⟩ (tr1 ++ tr2) ⟨pc, m2⟩ := by
                       simpa using r0.trans (r1.trans (r2.trans g))
-                    exact Concl.pre r02 (L m2 hi2) (post_conv rfl)
+                    exact Concl.pre r02 km2 (L m2 hi2 km2) (post_conv rfl)
                 · simp only [hn2, if_false, Option.pure_def, Option.some.injEq, Prod.mk.injEq] at hex
                   obtain ⟨rfl, rfl, rfl⟩ := hex
-                  have hsc : Safe p B ra Γ env2 F D o (pc + nC + nT + nE) res2 cont :=
+                  have hsc : ∀ m1, Keep p.w m m1 F → Safe p B ra Γ env2 F D o (pc + nC + nT + nE) m1 res2 cont := fun m1 km1 =>
                     hs.sub (by simp only [noTry, Bool.and_eq_true]; exact fun h => h.1.2)
-                      (by simp only [youLevel, Bool.and_eq_true]; exact fun h => h.1.2) (convN env2 res2 hn2 _ _)
-                  have hsbd : Safe p B ra Γ env1 F D o (pc + nC + nT) .norm body := by
+                      (by simp only [youLevel, Bool.and_eq_true]; exact fun h => h.1.2) km1 (convN env2 res2 hn2 _ _)
+                  have hsbd : Safe p B ra Γ env1 F D o (pc + nC + nT) m0 .norm body := by
                     rcases hs with h | ⟨h1, h2⟩
                     · left; simp only [noTry, Bool.and_eq_true] at h; exact h.1.1
                     · right
-                      have h1' := h1
                       simp only [youLevel, Bool.and_eq_true] at h1
                       refine ⟨h1.1.1, fun st1 hp1 => ?_⟩
                       obtain ⟨pc1, m1⟩ := st1
                       simp only [Post] at hp1
-                      obtain ⟨hpc1, hi1⟩ := hp1
+                      obtain ⟨hpc1, hi1, k01⟩ := hp1
                       subst hpc1
-                      have hcc := ih cont Γ env1 (pc + nC + nT) o m1 env2 tr2 res2 hplE (by rw [hlenE]; omega) hi1 hd hwc (by omega) ho hb2 hck
-                        (by rw [hlenE]; exact hsc)
+                      have km1 := km0.trans' k01
+                      have hcc := ih F D ra hra cont Γ env1 (pc + nC + nT) o m1 env2 tr2 res2 hplE (by rw [hlenE]; omega) hi1 hd hwc (by omega) ho hb2 hck
+                        (by rw [hlenE]; exact hsc m1 km1)
                       rw [hlenE] at hcc
-                      obtain ⟨st2, r2, hp2⟩ := hcc.2 (exec_no_defeat _ _ _ _ _ _ _ _ h1.1.2 hb2)
-                      exact (r2.exec (h2 st2 (convN env2 res2 hn2 _ _ st2 hp2))).2
-                  have hbb := ih body Γ env (pc + nC) o m0 env1 tr1 .norm hplT (by rw [hlenT]; omega) hinv0 hd hwb (by omega) ho hb1 (by simp)
+                      obtain ⟨st2, r2, hp2⟩ := hcc.2 (exec_no_defeat _ _ _ _ _ _ _ _ _ _ _ _ h1.1.2 hb2)
+                      exact (r2.exec (h2 st2 (convN env2 res2 hn2 _ _ st2 (hp2.rebase km1)))).2
+                  have hbb := ih F D ra hra body Γ env (pc + nC) o m0 env1 tr1 .norm hplT (by rw [hlenT]; omega) hinv0 hd hwb (by omega) ho hb1 (by simp)
                     (by rw [hlenT]; exact hsbd)
                   rw [hlenT] at hbb
                   obtain ⟨st1, r1, hp1⟩ := hbb.2 (by decide)
                   obtain ⟨pc1, m1⟩ := st1
                   simp only [Post] at hp1
-                  obtain ⟨hpc1, hi1⟩ := hp1
+                  obtain ⟨hpc1, hi1, k01⟩ := hp1
                   subst hpc1
-                  have hcc := ih cont Γ env1 (pc + nC + nT) o m1 env2 tr2 res2 hplE (by rw [hlenE]; omega) hi1 hd hwc (by omega) ho hb2 hck
-                    (by rw [hlenE]; exact hsc)
+                  have km1 := km0.trans' k01
+                  have hcc := ih F D ra hra cont Γ env1 (pc + nC + nT) o m1 env2 tr2 res2 hplE (by rw [hlenE]; omega) hi1 hd hwc (by omega) ho hb2 hck
+                    (by rw [hlenE]; exact hsc m1 km1)
                   rw [hlenE] at hcc
                   have r01 : Reach (sphinx p) ⟨pc, m⟩ tr1 ⟨pc + nC + nT, m1⟩ := by simpa using r0.trans r1
-                  exact Concl.pre r01 hcc (convN env2 res2 hn2 _ _)
+                  exact Concl.pre r01 km1 hcc (convN env2 res2 hn2 _ _)
             · simp only [hn1, if_false, Option.pure_def, Option.some.injEq, Prod.mk.injEq] at hex
               obtain ⟨rfl, rfl, rfl⟩ := hex
-              have hsb1 : Safe p B ra Γ env1 F D o (pc + nC + nT) res1 body :=
+              have hsb1 : Safe p B ra Γ env1 F D o (pc + nC + nT) m0 res1 body :=
                 hs.sub (by simp only [noTry, Bool.and_eq_true]; exact fun h => h.1.1)
-                  (by simp only [youLevel, Bool.and_eq_true]; exact fun h => h.1.1) (convN env1 res1 hn1 _ _)
-              have hbb := ih body Γ env (pc + nC) o m0 env1 tr1 res1 hplT (by rw [hlenT]; omega) hinv0 hd hwb (by omega) ho hb1 hck
+                  (by simp only [youLevel, Bool.and_eq_true]; exact fun h => h.1.1) km0 (convN env1 res1 hn1 _ _)
+              have hbb := ih F D ra hra body Γ env (pc + nC) o m0 env1 tr1 res1 hplT (by rw [hlenT]; omega) hinv0 hd hwb (by omega) ho hb1 hck
                 (by rw [hlenT]; exact hsb1)
               rw [hlenT] at hbb
-              simpa using Concl.pre r0 hbb (convN env1 res1 hn1 _ _)
+              simpa using Concl.pre r0 km0 hbb (convN env1 res1 hn1 _ _)
     | tryUndo body handler k =>
       rcases hs with h | ⟨h1, h2⟩
       · simp [noTry] at h
@@ -720,8 +935,8 @@ theorem cS_ok (lib : Placed p B) (F D ra : Nat) (hra : ra < 256 ^ p.w) :
         obtain ⟨⟨hwb, hwh⟩, hwk⟩ := hwf
         simp only [pkS] at hpk
         simp only [cS] at hpl hB h2 ⊢
-        have hlenB : (cS (cxOf p ck B) Γ (pc + 1) o body).length = lenS ck body := cS_len _ _ _ _ _
-        have hlenH : (cS (cxOf p ck B) Γ (pc + 1 + lenS ck body + 2) o handler).length = lenS ck handler := cS_len _ _ _ _ _
+        have hlenB : (cS (cxOf p ck B) fa Γ (pc + 1) o body).length = lenS ck body := cS_len _ _ _ _ _ _
+        have hlenH : (cS (cxOf p ck B) fa Γ (pc + 1 + lenS ck body + 2) o handler).length = lenS ck handler := cS_len _ _ _ _ _ _
         generalize hnB : lenS ck body = nB at *
         generalize hnH : lenS ck handler = nH at *
         obtain ⟨hpl1234, hplK⟩ := hpl.append
@@ -734,15 +949,27 @@ theorem cS_ok (lib : Placed p B) (F D ra : Nat) (hra : ra < 256 ^ p.w) :
         have s0 := step_j (m := m) (placed_one hplJ) (ev_imm (pc + 1 + nB + 2))
         rw [show (pc + 1 + nB + 2) % p.M = pc + 1 + nB + 2 from Nat.mod_eq_of_lt (by unfold Prog.M; omega)] at s0
         have convN : ∀ (envx : Env) (resx : Res), resx ≠ .norm → ∀ (e1 e2 : Nat) st',
-            Post p B ra Γ envx F D o e1 resx st' → Post p B ra Γ envx F D o e2 resx st' := by
+            Post p B ra Γ envx F D o e1 m resx st' → Post p B ra Γ envx F D o e2 m resx st' := by
           intro envx resx hx e1 e2 st' h
           cases resx with
           | norm => exact absurd rfl hx
           | returned => simpa [Post] using h
           | div0 => simpa [Post] using h
           | defeat => simpa [Post] using h
+          | retv v => simpa [Post] using h
+        -- the rest of the list, from any state at `end_try` reachable from `m`
+        have contK : ∀ (env1 : Env) (m1 : Mem) (env3 : Env) (tr3 : List Ev) (res3 : Res),
+            SInv p Γ env1 m1 F D o ra → Keep p.w m m1 F →
+            exec (256 ^ p.w) (8 * p.w) fns p.w f D o env1 k = some (env3, tr3, res3) → (res3 = .div0 → ck = true) →
+            (∀ st', Post p B ra Γ env3 F D o (pc + 1 + nB + 2 + nH + (cS (cxOf p ck B) fa Γ (pc + 1 + nB + 2 + nH) o k).length) m res3 st' →
+              ¬ Halts (sphinx p) st') →
+            Concl p B ra Γ env3 F D o (pc + 1 + nB + 2 + nH)
+              (pc + 1 + nB + 2 + nH + (cS (cxOf p ck B) fa Γ (pc + 1 + nB + 2 + nH) o k).length) m1 tr3 res3 :=
+          fun env1 m1 env3 tr3 res3 hi1 km1 hk hck3 hfin =>
+            ih F D ra hra k Γ env1 (pc + 1 + nB + 2 + nH) o m1 env3 tr3 res3 hplK (by omega) hi1 hd hwk (by omega) ho hk hck3
+              (Or.inr ⟨hyk, fun st' hp => hfin st' (hp.rebase km1)⟩)
         simp only [exec] at hex
-        cases hb1 : exec (256 ^ p.w) (8 * p.w) f env body with
+        cases hb1 : exec (256 ^ p.w) (8 * p.w) fns p.w f D o env body with
         | none => simp [hb1] at hex
         | some rb =>
           obtain ⟨env1, tr1, res1⟩ := rb
@@ -751,47 +978,45 @@ theorem cS_ok (lib : Placed p B) (F D ra : Nat) (hra : ra < 256 ^ p.w) :
           · -- the body would be defeated: the Turing jump goes to the handler, in the state before the try
             subst hdft
             simp only [if_true] at hex
-            have hbb := ih body Γ env (pc + 1) o m env1 tr1 .defeat hplB (by rw [hlenB]; omega) hinv hd hwb (by omega) ho hb1
+            have hbb := ih F D ra hra body Γ env (pc + 1) o m env1 tr1 .defeat hplB (by rw [hlenB]; omega) hinv hd hwb (by omega) ho hb1
               (by simp) (Or.inl hntb)
             have jt : Reach (sphinx p) ⟨pc, m⟩ [] ⟨pc + 1 + nB + 2, m⟩ := Reach.jump_taken' (sys := sphinx p) s0 (hbb.1 rfl)
-            cases hh2 : exec (256 ^ p.w) (8 * p.w) f env handler with
+            cases hh2 : exec (256 ^ p.w) (8 * p.w) fns p.w f D o env handler with
             | none => simp [hh2] at hex
             | some rh =>
               obtain ⟨env2, tr2, res2⟩ := rh
               simp only [hh2, Option.bind_some] at hex
-              have hnd2 : res2 ≠ .defeat := exec_no_defeat _ _ _ _ _ _ _ _ (plain_youLevel _ hplh) hh2
+              have hnd2 : res2 ≠ .defeat := exec_no_defeat _ _ _ _ _ _ _ _ _ _ _ _ (plain_youLevel _ hplh) hh2
               by_cases hn2 : res2 = .norm
               · subst hn2
                 simp only [if_true] at hex
-                cases hk : exec (256 ^ p.w) (8 * p.w) f env2 k with
+                cases hk : exec (256 ^ p.w) (8 * p.w) fns p.w f D o env2 k with
                 | none => simp [hk] at hex
                 | some rk =>
                   obtain ⟨env3, tr3, res3⟩ := rk
                   simp only [hk, Option.bind_some, Option.pure_def, Option.some.injEq, Prod.mk.injEq] at hex
                   obtain ⟨rfl, rfl, rfl⟩ := hex
-                  have hhh := ih handler Γ env (pc + 1 + nB + 2) o m env2 tr2 .norm hplH (by rw [hlenH]; omega) hinv hd hwh (by omega) ho hh2
+                  have hhh := ih F D ra hra handler Γ env (pc + 1 + nB + 2) o m env2 tr2 .norm hplH (by rw [hlenH]; omega) hinv hd hwh (by omega) ho hh2
                     (by simp) (Or.inl (plain_noTry _ hplh))
                   rw [hlenH] at hhh
                   obtain ⟨st2, r2, hp2⟩ := hhh.2 (by decide)
                   obtain ⟨pc2, m2⟩ := st2
                   simp only [Post] at hp2
-                  obtain ⟨hpc2, hi2⟩ := hp2
+                  obtain ⟨hpc2, hi2, km2⟩ := hp2
                   subst hpc2
-                  have hkk := ih k Γ env2 (pc + 1 + nB + 2 + nH) o m2 env3 tr3 res3 hplK (by omega) hi2 hd hwk (by omega) ho hk hck
-                    (Or.inr ⟨hyk, fun st' hp => h2 st' hp⟩)
                   have r02 : Reach (sphinx p) ⟨pc, m⟩ tr2 ⟨pc + 1 + nB + 2 + nH, m2⟩ := by simpa using jt.trans r2
-                  exact Concl.pre r02 hkk (post_conv rfl)
+                  exact Concl.pre r02 km2 (contK env2 m2 env3 tr3 res3 hi2 km2 hk hck h2) (post_conv rfl)
               · simp only [hn2, if_false, Option.pure_def, Option.some.injEq, Prod.mk.injEq] at hex
                 obtain ⟨rfl, rfl, rfl⟩ := hex
-                have hhh := ih handler Γ env (pc + 1 + nB + 2) o m env2 tr2 res2 hplH (by rw [hlenH]; omega) hinv hd hwh (by omega) ho hh2
+                have hhh := ih F D ra hra handler Γ env (pc + 1 + nB + 2) o m env2 tr2 res2 hplH (by rw [hlenH]; omega) hinv hd hwh (by omega) ho hh2
                   hck (Or.inl (plain_noTry _ hplh))
-                simpa using Concl.pre jt hhh (convN env2 res2 hn2 _ _)
+                simpa using Concl.pre jt (Keep.refl _ _ _) hhh (convN env2 res2 hn2 _ _)
           · simp only [hdft, if_false] at hex
-            have hbb := ih body Γ env (pc + 1) o m env1 tr1 res1 hplB (by rw [hlenB]; omega) hinv hd hwb (by omega) ho hb1
+            have hbb := ih F D ra hra body Γ env (pc + 1) o m env1 tr1 res1 hplB (by rw [hlenB]; omega) hinv hd hwb (by omega) ho hb1
             by_cases hn : res1 = .norm
             · subst hn
               simp only [if_true] at hex
-              cases hk : exec (256 ^ p.w) (8 * p.w) f env1 k with
+              cases hk : exec (256 ^ p.w) (8 * p.w) fns p.w f D o env1 k with
               | none => simp [hk] at hex
               | some rk =>
                 obtain ⟨env3, tr3, res3⟩ := rk
@@ -802,25 +1027,239 @@ theorem cS_ok (lib : Placed p B) (F D ra : Nat) (hra : ra < 256 ^ p.w) :
                 obtain ⟨st1, r1, hp1⟩ := hbb'.2 (by decide)
                 obtain ⟨pc1, m1⟩ := st1
                 simp only [Post] at hp1
-                obtain ⟨hpc1, hi1⟩ := hp1
+                obtain ⟨hpc1, hi1, km1⟩ := hp1
                 subst hpc1
                 have g := goto_reach lib (pc + 1 + nB) (pc + 1 + nB + 2 + nH) m1 hplG hendM
-                have hkk := ih k Γ env1 (pc + 1 + nB + 2 + nH) o m1 env3 tr3 res3 hplK (by omega) hi1 hd hwk (by omega) ho hk hck
-                  (Or.inr ⟨hyk, fun st' hp => h2 st' hp⟩)
-                have hnd3 : res3 ≠ .defeat := exec_no_defeat _ _ _ _ _ _ _ _ hyk hk
+                have hkk := contK env1 m1 env3 tr3 res3 hi1 km1 hk hck h2
+                have hnd3 : res3 ≠ .defeat := exec_no_defeat _ _ _ _ _ _ _ _ _ _ _ _ hyk hk
                 obtain ⟨st', r3, hp3⟩ := hkk.2 hnd3
                 have rbody : Reach (sphinx p) ⟨pc + 1, m⟩ (tr1 ++ tr3) st' := by simpa using r1.trans (g.trans r3)
-                have nh1 : ¬ Halts (sphinx p) ⟨pc + 1, m⟩ := (rbody.exec (h2 st' hp3)).2
+                have nh1 : ¬ Halts (sphinx p) ⟨pc + 1, m⟩ := (rbody.exec (h2 st' (hp3.rebase km1))).2
                 have jn := Reach.jump_not_taken (sys := sphinx p) s0 (fun hh => absurd hh nh1)
-                exact ⟨fun hd' => absurd hd' hnd3, fun _ => ⟨st', by simpa using jn.trans rbody, hp3⟩⟩
+                exact ⟨fun hd' => absurd hd' hnd3, fun _ => ⟨st', by simpa using jn.trans rbody, hp3.rebase km1⟩⟩
             · simp only [hn, if_false, Option.pure_def, Option.some.injEq, Prod.mk.injEq] at hex
               obtain ⟨rfl, rfl, rfl⟩ := hex
               have hbb' := hbb hck (Or.inl hntb)
               obtain ⟨st1, r1, hp1⟩ := hbb'.2 hdft
-              have hp1' := convN env1 res1 hn _ (pc + 1 + nB + 2 + nH + (cS (cxOf p ck B) Γ (pc + 1 + nB + 2 + nH) o k).length) st1 hp1
+              have hp1' := convN env1 res1 hn _ (pc + 1 + nB + 2 + nH + (cS (cxOf p ck B) fa Γ (pc + 1 + nB + 2 + nH) o k).length) st1 hp1
               have nh1 : ¬ Halts (sphinx p) ⟨pc + 1, m⟩ := (r1.exec (h2 st1 hp1')).2
               have jn := Reach.jump_not_taken (sys := sphinx p) s0 (fun hh => absurd hh nh1)
               exact ⟨fun hd' => absurd hd' hdft, fun _ => ⟨st1, by simpa using jn.trans r1, hp1'⟩⟩
+    | retE e =>
+      simp only [wfS] at hwf
+      simp only [pkS] at hpk
+      have hg := gV_ok (ck := ck) lib Γ env F D e pc o (2 * p.w) m
+      have hreg := gV_reg (p := p) (ck := ck) (B := B) Γ env m F D e pc o (2 * p.w) hinv.vars hwf hpk ho
+      rcases hgv : gV (cxOf p ck B) Γ pc o (cxOf p ck B).r0 e with ⟨c, v'⟩
+      rw [show (cxOf p ck B).r0 = 2 * p.w from rfl] at hgv
+      rw [hgv] at hg hreg
+      simp only at hg hreg
+      have hcode : cS (cxOf p ck B) fa Γ pc o (.retE e)
+          = c ++ [ldSlot (cxOf p ck B) (3 * p.w) p.w, stSlot (cxOf p ck B) p.w (v'.arg (cxOf p ck B)),
+              .j (.st (3 * p.w)), .halt] := by
+        simp only [cS]; rw [show (cxOf p ck B).r0 = 2 * p.w from rfl, hgv]; rfl
+      rw [hcode] at hpl hB hs ⊢
+      obtain ⟨hpl1, hpl2⟩ := hpl.append
+      simp only [List.length_append, List.length_cons, List.length_nil, Nat.zero_add] at hB hs ⊢
+      have hg' := hg hpl1 (by omega) (Or.inl trivial) hinv.fr hinv.vars hwf hpk ho
+      cases hev : evalE (256 ^ p.w) (8 * p.w) env e with
+      | none =>
+        simp only [exec, hev, Option.some.injEq, Prod.mk.injEq] at hex
+        obtain ⟨rfl, rfl, rfl⟩ := hex
+        obtain ⟨m', r⟩ := hg'.2 hev (hck rfl)
+        exact fault _ _ _ _ m' _ r
+      | some v =>
+        simp only [exec, hev, Option.some.injEq, Prod.mk.injEq] at hex
+        obtain ⟨rfl, rfl, rfl⟩ := hex
+        obtain ⟨m1, r1, k1, harg, hval⟩ := hg'.1 v hev
+        have hinv1 := hinv.keep k1 ho
+        have fr1 := hinv1.fr
+        have c0 := hpl2 0 (by simp); have c1 := hpl2 1 (by simp); have c2 := hpl2 2 (by simp); have c3 := hpl2 3 (by simp)
+        simp only [List.getElem_cons_succ, List.getElem_cons_zero, Nat.add_zero] at c0 c1 c2 c3
+        have s0 := step_ldSlot ck B (3 * p.w) p.w hw fr1 c0 (Nat.le_refl _) (by omega) (by omega)
+        rw [hinv1.ra] at s0
+        generalize hm2 : m1.writeLE (3 * p.w) p.w ra = m2 at *
+        have k12 : Keep p.w m1 m2 (F - o) := by
+          rw [← hm2]; exact Keep.write _ _ _ _ _ _ (by omega) (by omega)
+        have fr2 := fr1.keep k12
+        have hval2 : valOf p.w m2 F v' = v := by
+          rw [← hm2, valOf_write_away _ _ _ _ _ _ (by
+            rcases hreg with ⟨i, hi⟩ | hr
+            · rw [hi]; trivial
+            · rw [hr]; simp only [Away]; omega)]
+          exact hval
+        have ev := ev_arg_any (ck := ck) (B := B) hw fr2 (pc + c.length + 1) v' harg
+        rw [hval2] at ev
+        have s1 := step_stSlot ck B p.w _ v hw fr2 c1 ev (Nat.le_refl _) (by omega)
+        generalize hm3 : m2.writeLE (F - p.w) p.w v = m3 at *
+        have hvM : v < 256 ^ p.w := by
+          rw [← hval]; cases v' with
+          | imm i => exact wrapI_lt (by omega) i
+          | reg a => exact Mem.readLE_lt _ _ _
+          | slot s => exact Mem.readLE_lt _ _ _
+        have k23 : Keep p.w m2 m3 F := by
+          rw [← hm3]; exact Keep.write _ _ _ _ _ _ (by omega) (by omega)
+        have hr1 : m3.readLE (3 * p.w) p.w = ra := by
+          rw [← hm3, Mem.readLE_writeLE_disj _ _ _ _ _ _ (by omega), ← hm2,
+            Mem.readLE_writeLE_same _ _ _ _ (by have := k1.size; omega)]
+          exact Nat.mod_eq_of_lt hra
+        have hsz3 : 5 * p.w ≤ m3.size := by rw [k23.size, k12.size, k1.size]; omega
+        have s2 := step_j (m := m3) c2 (by rw [ev_st (by unfold Prog.M; omega) (by omega), hr1])
+        have s3 := step_halt (m := m3) c3
+        refine ⟨fun h => absurd h (by simp), fun _ => ⟨⟨ra, m3⟩, ?_, ?_⟩⟩
+        · have := r1.trans ((Reach.of_next (sys := sphinx p) s0).trans
+            ((Reach.of_next (sys := sphinx p) s1).trans (Reach.jump_taken (sys := sphinx p) s2 s3)))
+          simpa [evl] using this
+        · simp only [Post]
+          refine ⟨trivial, ((k1.mono (by omega)).trans' (k12.mono (by omega))).trans' k23, ?_⟩
+          rw [← hm3, Mem.readLE_writeLE_same _ _ _ _ (by have := k12.size; have := k1.size; omega)]
+          exact Nat.mod_eq_of_lt hvM
+    | callS g args k =>
+      simp only [wfS, Bool.and_eq_true] at hwf
+      obtain ⟨hba, hwk⟩ := hwf
+      simp only [pkS] at hpk
+      simp only [cS] at hpl hB hs ⊢
+      obtain ⟨hpl1, hpl2⟩ := hpl.append
+      rw [List.length_append] at hB hs ⊢
+      simp only [exec] at hex
+      cases hcw : callWith (256 ^ p.w) (8 * p.w) fns p.w (exec (256 ^ p.w) (8 * p.w) fns p.w f) D o env g args with
+      | none => simp [hcw] at hex
+      | some rc =>
+        obtain ⟨trc, flag, rv⟩ := rc
+        cases flag with
+        | true =>
+          simp only [hcw, Option.some.injEq, Prod.mk.injEq] at hex
+          obtain ⟨rfl, rfl, rfl⟩ := hex
+          obtain ⟨m', r⟩ := (hcall g args trc true rv hpl1 (by omega) hba (by omega) hcw (fun _ => hck rfl)).1 rfl
+          exact fault _ _ _ _ m' _ r
+        | false =>
+          simp only [hcw] at hex
+          cases hk : exec (256 ^ p.w) (8 * p.w) fns p.w f D o env k with
+          | none => simp [hk] at hex
+          | some rk =>
+            obtain ⟨envk, trk, resk⟩ := rk
+            simp only [hk, Option.bind_eq_bind, Option.bind_some, Option.pure_def, Option.some.injEq, Prod.mk.injEq] at hex
+            obtain ⟨rfl, rfl, rfl⟩ := hex
+            obtain ⟨m1, r1, k1, _⟩ := (hcall g args trc false rv hpl1 (by omega) hba (by omega) hcw
+              (fun h => absurd h (by simp))).2 rfl
+            have hkk := ih F D ra hra k Γ env _ o m1 envk trk resk hpl2 (by omega)
+              (hinv.keep k1 ho) hd hwk (by omega) ho hk hck
+              (hs.sub (by simp [noTry]) (by simp [youLevel]) (k1.mono (by omega)) (post_conv (by omega)))
+            exact Concl.pre r1 (k1.mono (by omega)) hkk (post_conv (by omega))
+    | declCall x g args k =>
+      simp only [wfS, Bool.and_eq_true, Bool.not_eq_true'] at hwf
+      obtain ⟨⟨hba, hxn⟩, hwk⟩ := hwf
+      simp only [pkS] at hpk
+      simp only [cS] at hpl hB hs ⊢
+      obtain ⟨hpl1, hpl2⟩ := hpl.append
+      rw [List.length_append] at hB hs ⊢
+      simp only [exec] at hex
+      cases hcw : callWith (256 ^ p.w) (8 * p.w) fns p.w (exec (256 ^ p.w) (8 * p.w) fns p.w f) D o env g args with
+      | none => simp [hcw] at hex
+      | some rc =>
+        obtain ⟨trc, flag, rv⟩ := rc
+        cases flag with
+        | true =>
+          simp only [hcw, Option.some.injEq, Prod.mk.injEq] at hex
+          obtain ⟨rfl, rfl, rfl⟩ := hex
+          obtain ⟨m', r⟩ := (hcall g args trc true rv hpl1 (by omega) hba (by omega) hcw (fun _ => hck rfl)).1 rfl
+          exact fault _ _ _ _ m' _ r
+        | false =>
+          cases rv with
+          | none => simp [hcw] at hex
+          | some v =>
+            simp only [hcw] at hex
+            cases hk : exec (256 ^ p.w) (8 * p.w) fns p.w f D (o + p.w) (upd env x v) k with
+            | none => simp [hk] at hex
+            | some rk =>
+              obtain ⟨envk, trk, resk⟩ := rk
+              simp only [hk, Option.bind_eq_bind, Option.bind_some, Option.pure_def, Option.some.injEq, Prod.mk.injEq] at hex
+              obtain ⟨rfl, rfl, rfl⟩ := hex
+              obtain ⟨m1, r1, k1, hv1⟩ := (hcall g args trc false (some v) hpl1 (by omega) hba (by omega) hcw
+                (fun h => absurd h (by simp))).2 rfl
+              obtain ⟨hinv1, hd1⟩ := decl_inv hinv hd x v k1 (hv1 v rfl) hxn ho
+              have conv : ∀ (e1 e2 : Nat), e1 = e2 → ∀ st', Post p B ra ((x, o + p.w) :: Γ) envk F D (o + p.w) e1 m resk st' →
+                  Post p B ra Γ envk F D o e2 m resk st' := by
+                intro e1 e2 he st' hpost
+                subst he
+                cases resk with
+                | norm =>
+                  simp only [Post] at hpost ⊢
+                  exact ⟨hpost.1, decl_back hinv x hpost.2.1 hxn, hpost.2.2⟩
+                | returned => simpa [Post] using hpost
+                | div0 => simpa [Post] using hpost
+                | defeat => simpa [Post] using hpost
+                | retv v => simpa [Post] using hpost
+              have hkk := ih F D ra hra k ((x, o + p.w) :: Γ) (upd env x v) _ (o + p.w) m1 envk trk resk hpl2 (by omega)
+                hinv1 hd1 (by simpa using hwk) (by omega) (by omega) hk hck
+                (hs.sub (by simp [noTry]) (by simp [youLevel]) (k1.mono (by omega)) (conv _ _ (by omega)))
+              exact Concl.pre r1 (k1.mono (by omega)) hkk (conv _ _ (by omega))
+    | assignCall x g args k =>
+      simp only [wfS, Bool.and_eq_true] at hwf
+      obtain ⟨⟨hxin, hba⟩, hwk⟩ := hwf
+      simp only [pkS] at hpk
+      have hcode : cS (cxOf p ck B) fa Γ pc o (.assignCall x g args k)
+          = ((cCall (cxOf p ck B) fa Γ pc o g args ++
+              [ldSlot (cxOf p ck B) (3 * p.w) (o + p.w), stSlot (cxOf p ck B) (look Γ x) (.st (3 * p.w))])) ++
+            cS (cxOf p ck B) fa Γ (pc + (cCall (cxOf p ck B) fa Γ pc o g args ++
+              [ldSlot (cxOf p ck B) (3 * p.w) (o + p.w), stSlot (cxOf p ck B) (look Γ x) (.st (3 * p.w))]).length) o k := by
+        simp only [cS]; rfl
+      rw [hcode] at hpl hB hs ⊢
+      obtain ⟨hpl12, hpl3⟩ := hpl.append
+      obtain ⟨hpl1, hpl2⟩ := hpl12.append
+      simp only [List.length_append, List.length_cons, List.length_nil, Nat.zero_add] at hB hpl3 hs ⊢
+      simp only [exec] at hex
+      cases hcw : callWith (256 ^ p.w) (8 * p.w) fns p.w (exec (256 ^ p.w) (8 * p.w) fns p.w f) D o env g args with
+      | none => simp [hcw] at hex
+      | some rc =>
+        obtain ⟨trc, flag, rv⟩ := rc
+        cases flag with
+        | true =>
+          simp only [hcw, Option.some.injEq, Prod.mk.injEq] at hex
+          obtain ⟨rfl, rfl, rfl⟩ := hex
+          obtain ⟨m', r⟩ := (hcall g args trc true rv hpl1 (by omega) hba (by omega) hcw (fun _ => hck rfl)).1 rfl
+          exact fault _ _ _ _ m' _ r
+        | false =>
+          cases rv with
+          | none => simp [hcw] at hex
+          | some v =>
+            simp only [hcw] at hex
+            cases hk : exec (256 ^ p.w) (8 * p.w) fns p.w f D o (upd env x v) k with
+            | none => simp [hk] at hex
+            | some rk =>
+              obtain ⟨envk, trk, resk⟩ := rk
+              simp only [hk, Option.bind_eq_bind, Option.bind_some, Option.pure_def, Option.some.injEq, Prod.mk.injEq] at hex
+              obtain ⟨rfl, rfl, rfl⟩ := hex
+              obtain ⟨m1, r1, k1, hv1⟩ := (hcall g args trc false (some v) hpl1 (by omega) hba (by omega) hcw
+                (fun h => absurd h (by simp))).2 rfl
+              have hv := hv1 v rfl
+              have hoW : o + p.w ≤ D := by unfold pkCall at hpk; omega
+              have hinv1 := hinv.keep k1 ho
+              have c0 := hpl2 0 (by simp); have c1 := hpl2 1 (by simp)
+              simp only [List.getElem_cons_succ, List.getElem_cons_zero, Nat.add_zero] at c0 c1
+              have s0 := step_ldSlot ck B (3 * p.w) (o + p.w) hw hinv1.fr c0 (by omega) hoW (by omega)
+              rw [hv] at s0
+              have k12 : Keep p.w m1 (m1.writeLE (3 * p.w) p.w v) (F - o) :=
+                Keep.write _ _ _ _ _ _ (by omega) (by omega)
+              generalize hm2 : m1.writeLE (3 * p.w) p.w v = m2 at *
+              have hinv2 := hinv1.keep k12 ho
+              have hvM : v < 256 ^ p.w := by rw [← hv]; exact Mem.readLE_lt _ _ _
+              have hr1 : m2.readLE (3 * p.w) p.w = v := by
+                rw [← hm2, Mem.readLE_writeLE_same _ _ _ _ (by have := k1.size; omega)]
+                exact Nat.mod_eq_of_lt hvM
+              obtain ⟨hx1, hx2, _⟩ := hinv.vars x hxin
+              have s1 := step_stSlot ck B (look Γ x) (.st (3 * p.w)) v hw hinv2.fr c1
+                (by rw [ev_st (by unfold Prog.M; omega) (by have := hinv2.fr.top; omega), hr1]) (by omega) (by omega)
+              have hinv3 := assign_inv hw hinv2 hd x v hvM hxin hoD
+              have km3 : Keep p.w m (m2.writeLE (F - look Γ x) p.w v) F :=
+                ((k1.mono (by omega)).trans' (k12.mono (by omega))).trans' (Keep.write _ _ _ _ _ _ (by omega) (by omega))
+              have hkk := ih F D ra hra k Γ (upd env x v) _ o _ envk trk resk hpl3 (by omega)
+                hinv3 hd hwk (by omega) ho hk hck (hs.sub (by simp [noTry]) (by simp [youLevel]) km3 (post_conv (by omega)))
+              have r01 : Reach (sphinx p) ⟨pc, m⟩ trc
+                  ⟨pc + ((cCall (cxOf p ck B) fa Γ pc o g args).length + 2), m2.writeLE (F - look Γ x) p.w v⟩ := by
+                have := r1.trans ((Reach.of_next (sys := sphinx p) s0).trans (Reach.of_next (sys := sphinx p) s1))
+                simpa [evl, Nat.add_assoc] using this
+              exact Concl.pre r01 km3 hkk (post_conv (by omega))
 end
 
 end HidVerif.Core
